@@ -16,777 +16,1204 @@ Definition terms (ts : list tok) (t : pt) : string :=
   digest (show_toks (Some ts)) ++ " " ++ digest (show_pt (Some t)) ++ " " ++ digest (show_pt (parse ts)).
 Definition terms_full (ts : list tok) (t : pt) : string :=
   show_toks (Some ts) ++ nl ++ show_pt (Some t) ++ nl ++ show_pt (parse ts).
-Eval vm_compute in ("<<<M7>>>" ++ check (runes_of_ascii "packet pack {
-repeat As {
-char[ 65535 // trailing space 
-] crc `crlf
-line` , },
-}
-")).
-Eval vm_compute in ("<<<M17>>>" ++ check (runes_of_ascii "packet Z9_// packet A { u8 x, }
-{ @tag(
-4294967296 )uint8x@calculatedFrom( ""abc"" ), }
-
-")).
-Eval vm_compute in ("<<<M27>>>" ++ check (runes_of_ascii "options // " ++ [27880; 37322]%N ++ runes_of_ascii "
-{Packet = 4294967296
-; i64_  = // c
-""1"" ;	Z9_ = ""abc"" ; options1 =
-""a\\""
-; o=0  ; }")).
-Eval vm_compute in ("<<<T27>>>" ++ terms [mkTok 1 "options" 1 0 false; mkTok 44 (string_of_bytes [47; 47; 32; 230; 179; 168; 233; 135; 138]%N) 1 8 true; mkTok 2 "{" 2 0 false; mkTok 42 "Packet" 2 1 false; mkTok 4 "=" 2 8 false; mkTok 30 "4294967296" 2 10 false; mkTok 41 ";" 3 0 false; mkTok 42 "i64_" 3 2 false; mkTok 4 "=" 3 8 false; mkTok 44 "// c" 3 10 true; mkTok 31 """1""" 4 0 false; mkTok 41 ";" 4 4 false; mkTok 42 "Z9_" 4 6 false; mkTok 4 "=" 4 10 false; mkTok 31 """abc""" 4 12 false; mkTok 41 ";" 4 18 false; mkTok 42 "options1" 4 20 false; mkTok 4 "=" 4 29 false; mkTok 31 """a\\""" 5 0 false; mkTok 41 ";" 6 0 false; mkTok 42 "o" 6 2 false; mkTok 4 "=" 6 3 false; mkTok 30 "0" 6 4 false; mkTok 41 ";" 6 7 false; mkTok 3 "}" 6 9 false; mkTok 0 "<EOF>" 6 10 false] (mkPacket (mkPtok 1 "options" 1 0 0) (Some (mkPtok 3 "}" 6 9 24)) [(DOption (mkOptionDef (mkSpan (mkPtok 1 "options" 1 0 0) (mkPtok 3 "}" 6 9 24)) (mkPtok 1 "options" 1 0 0) (mkPtok 2 "{" 2 0 2) [(mkOptionDecl (mkSpan (mkPtok 42 "Packet" 2 1 3) (mkPtok 41 ";" 3 0 6)) (mkPtok 42 "Packet" 2 1 3) (mkPtok 4 "=" 2 8 4) (VDigits (mkSpan (mkPtok 30 "4294967296" 2 10 5) (mkPtok 30 "4294967296" 2 10 5)) (mkPtok 30 "4294967296" 2 10 5)) (Some (mkPtok 41 ";" 3 0 6))); (mkOptionDecl (mkSpan (mkPtok 42 "i64_" 3 2 7) (mkPtok 41 ";" 4 4 11)) (mkPtok 42 "i64_" 3 2 7) (mkPtok 4 "=" 3 8 8) (VString (mkSpan (mkPtok 31 """1""" 4 0 10) (mkPtok 31 """1""" 4 0 10)) (mkPtok 31 """1""" 4 0 10)) (Some (mkPtok 41 ";" 4 4 11))); (mkOptionDecl (mkSpan (mkPtok 42 "Z9_" 4 6 12) (mkPtok 41 ";" 4 18 15)) (mkPtok 42 "Z9_" 4 6 12) (mkPtok 4 "=" 4 10 13) (VString (mkSpan (mkPtok 31 """abc""" 4 12 14) (mkPtok 31 """abc""" 4 12 14)) (mkPtok 31 """abc""" 4 12 14)) (Some (mkPtok 41 ";" 4 18 15))); (mkOptionDecl (mkSpan (mkPtok 42 "options1" 4 20 16) (mkPtok 41 ";" 6 0 19)) (mkPtok 42 "options1" 4 20 16) (mkPtok 4 "=" 4 29 17) (VString (mkSpan (mkPtok 31 """a\\""" 5 0 18) (mkPtok 31 """a\\""" 5 0 18)) (mkPtok 31 """a\\""" 5 0 18)) (Some (mkPtok 41 ";" 6 0 19))); (mkOptionDecl (mkSpan (mkPtok 42 "o" 6 2 20) (mkPtok 41 ";" 6 7 23)) (mkPtok 42 "o" 6 2 20) (mkPtok 4 "=" 6 3 21) (VDigits (mkSpan (mkPtok 30 "0" 6 4 22) (mkPtok 30 "0" 6 4 22)) (mkPtok 30 "0" 6 4 22)) (Some (mkPtok 41 ";" 6 7 23)))] (mkPtok 3 "}" 6 9 24)))])).
-Eval vm_compute in ("<<<M37>>>" ++ check (runes_of_ascii "packet  int {@tag( 00
-) float	,
-@leftPad( '0'
-)@calculatedFrom(""" ++ [28040; 24687]%N ++ runes_of_ascii """ ) match crc
-as body
-    {""`tick`"" : msg_type} // @lengthOf(
-,
-Logon
-,repeat u8x, // " ++ [27880; 37322]%N ++ runes_of_ascii "
-} packet MetaDataX { }packet string_ {
-repeat //
-Header Header
-, // trailing space 
-} packet
-A{ @rightPad // " ++ [27880; 37322]%N ++ runes_of_ascii "
-( '\x00' // trailing space 
-) @leftPad (
-    ' ' ) repeat uint64
-    matchKey // trailing space 
-, f32 len // @lengthOf(
-, // trailing space 
-repeat
-tag
-{i64
-// @lengthOf(
-// " ++ [27880; 37322]%N ++ runes_of_ascii "
-roots
-    // " ++ [27880; 37322]%N ++ runes_of_ascii "
-    @lengthOf( metadata ), }
-, @tag(
-65535
-    ) char[ //
-00 ]
-// a // b
-/// triple
-a1
-    ,repeat i16 i8i8 ,char[
-3 ]int @calculatedFrom(
-""a\\"" ) , // a // b
-@calculatedFrom( """ ++ [28040; 24687]%N ++ runes_of_ascii """) Pad// " ++ [128512]%N ++ runes_of_ascii " emoji
+Eval vm_compute in ("<<<M7>>>" ++ check (runes_of_ascii "
+packet stringy {
+    @tag( 3
+) @rightPad ( ) //x
+@lengthOf( charz ) i8i8
 @lengthOf(
-stringy ) ,/// triple
-}
-")).
-Eval vm_compute in ("<<<M47>>>" ++ check (runes_of_ascii "packet rootA{ }
-options
-{ uint8x =//	t
-u32 ; i64_
-=	255 ;
-len
-    = ' '
-    ;
-    } // @lengthOf(")).
-Eval vm_compute in ("<<<M57>>>" ++ check (runes_of_ascii "// " ++ [27880; 37322]%N ++ runes_of_ascii "
-options { u8x
-=false}	packet crc
-{ @leftPad
-    ( // `tick` ""quote"" 'q'
-'\x00'
-)@calculatedFrom( ""a\""b"" ) char[] u@lengthOf(
-    x ), stringy
-charz	`" ++ [233]%N ++ runes_of_ascii "`
-// c
-// c
-,
-} packet
-// c
-//x
-tag {
-    string T,zchar[ 7
-    ] leftPad ,// `tick` ""quote"" 'q'
-}
-")).
-Eval vm_compute in ("<<<M67>>>" ++ check (runes_of_ascii "  options	{ string_
-=true; } options
-{ T
-= false}
-packet
-u8x { @lengthOf( int
-    //
+    // @lengthOf(
+    BodyLength )
+`line1
+line2` , msg_type @calculatedFrom( ""CRC32""
     )
-zchar[ 255 ] BodyLength , } // trailing space 
-root
-packet
-    f32a  { }packet roots
-{ Foo
-    , repeat char[ 007 ] Pad
-,repeat  int8
-packetx
-    ,
-    match Z9_ as T	{
-00 :A , ""a\""b"" :
-    falsey  , //
-""CRC32""
-:a1
-,
-    }	, }
-")).
-Eval vm_compute in ("<<<M77>>>" ++ check (runes_of_ascii "MetaData calculatedFrom { // @lengthOf(
-tag a1
-, uint8 _x`crlf
-line`,
-// " ++ [27880; 37322]%N ++ runes_of_ascii "
-// packet A { u8 x, }
-string
-    Z9_ ,uint8x A`line1
-line2` ,char falsey , packetx Foo
-,  }
-MetaData body {
-string x_y_z``
-    , falsey zchar `line1
-line2` , } options{ }
-")).
-Eval vm_compute in ("<<<M87>>>" ++ check (runes_of_ascii "MetaData
-Packet
-{
-    }options { Z9_ =
-char[] ; _x=
-'0';
-body
-=
-false }
-")).
-Eval vm_compute in ("<<<M97>>>" ++ check (runes_of_ascii "packet repeatCount{	} // c")).
-Eval vm_compute in ("<<<T97>>>" ++ terms [mkTok 35 "packet" 1 0 false; mkTok 42 "repeatCount" 1 7 false; mkTok 2 "{" 1 18 false; mkTok 3 "}" 1 20 false; mkTok 44 "// c" 1 22 true; mkTok 0 "<EOF>" 1 26 false] (mkPacket (mkPtok 35 "packet" 1 0 0) (Some (mkPtok 3 "}" 1 20 3)) [(DPacket (mkPacketDef (mkSpan (mkPtok 35 "packet" 1 0 0) (mkPtok 3 "}" 1 20 3)) None (mkPtok 35 "packet" 1 0 0) (mkPtok 42 "repeatCount" 1 7 1) (mkPtok 2 "{" 1 18 2) [] (mkPtok 3 "}" 1 20 3)))])).
-Eval vm_compute in ("<<<M107>>>" ++ check (runes_of_ascii "
-packet float {
-} MetaData As { char[]
-    trueish , }
-// " ++ [27880; 37322]%N ++ runes_of_ascii "
-")).
-Eval vm_compute in ("<<<M117>>>" ++ check (@nil rune)).
-Eval vm_compute in ("<<<M127>>>" ++ check (runes_of_ascii "
-packet  u
-    //	t
-    {uint32 metadata	,	@lengthOf( metadata // " ++ [27880; 37322]%N ++ runes_of_ascii "
-)
-// `tick` ""quote"" 'q'
-// c
-repeat Logon
-    ,x_y_z// a // b
-, @lengthOf(
-    tag )
-// " ++ [128512]%N ++ runes_of_ascii " emoji
-// c
-float msg_type	,}MetaData chars { u8x
-    matchKey
-// " ++ [27880; 37322]%N ++ runes_of_ascii "
-//x
-,
-    uint8
-    x_y_z `u8 x,`, zchar x_y_z `doc` ,	char i64_ `a\` ,f32 tag//	t
-, } MetaData _x {
-// trailing space 
-// `tick` ""quote"" 'q'
-} options { }
-")).
-Eval vm_compute in ("<<<M137>>>" ++ check (runes_of_ascii "packet u128 {@lengthOf( x_y_z )	@lengthOf( stringy )
-@lengthOf( _x) zchar[
-// c
-// c
-4294967296 ] asx @calculatedFrom(
-    ""\" ++ [233]%N ++ runes_of_ascii """	)
-    `
-` ,char[0 ] matchKey
-, rootA
-    u128
-    ,
-    metadata metadata ,	zchar[	3 ]
-    string_ `" ++ [233]%N ++ runes_of_ascii "`
-,
-// `tick` ""quote"" 'q'
-// " ++ [27880; 37322]%N ++ runes_of_ascii "
-@calculatedFrom(""a	b""
-)
-char roots `" ++ [28040; 24687; 31867; 22411]%N ++ runes_of_ascii "` , repeat zchar[10]
-pack
-    `
-`, @calculatedFrom( ""{,}"" )
-@lengthOf( //	t
-Foo )  packetx {// " ++ [128512]%N ++ runes_of_ascii " emoji
-match i8i8 as Header
-{ 255	: Z9_  """ ++ [233]%N ++ runes_of_ascii "t" ++ [233]%N ++ runes_of_ascii """ :tag
-, [ 7,	1, ""// no comment"", ""// no comment"" , 3
-,
-    """" , // `tick` ""quote"" 'q'
-1 ] :lengthOf 3 :  asx , [ 42	,
-0 , 1 ] :Z9_ , 10 :
-    A}, } , }root packet T {/// triple
-int32 roots `two words`, stringy, @rightPad ( '\x00')float64 len	@lengthOf( o )
-    ,match body // `tick` ""quote"" 'q'
-as	uint8x { 10
-    :
-tag , }
-    ,
-    repeat u8
-    Pad
-    `" ++ [28040; 24687; 31867; 22411]%N ++ runes_of_ascii "`
-    , repeat char[]
-    float // c
-, @calculatedFrom(	""packet"" ) u16 x
-    @lengthOf(
-u8x)
-// c
-// a // b
-, } //x")).
-Eval vm_compute in ("<<<M147>>>" ++ check (runes_of_ascii "packet Header {
-    }
-")).
-Eval vm_compute in ("<<<M157>>>" ++ check (runes_of_ascii "packet
-    Header	{	repeat string
-    Header
-,
-repeat options1  ,	zchar[
-    //	t
-    00 ] matchKey ,} options
-// @lengthOf(
-// `tick` ""quote"" 'q'
-{charz= ""\n"" ; // a // b
-BodyLength = ""x y"" u8x
-    = ""x y""
-    u // `tick` ""quote"" 'q'
-= 255 }
-MetaData u8x{
-// a // b
-// c
-Z9_
-i8i8 , float32  stringy , float msg_type // `tick` ""quote"" 'q'
-`doc`
-    ,
-calculatedFrom T , Foo T `a\` , }	root
-    packet
-    roots
-    {	@tag( 00
-) /// triple
-match// `tick` ""quote"" 'q'
-len
-    as roots {
-    // @lengthOf(
-    [ 4294967296 ]
-    : tag ""// no comment"" :float ,"""" : uint8x ,
-// " ++ [27880; 37322]%N ++ runes_of_ascii "
-// trailing space 
-007
-    // " ++ [27880; 37322]%N ++ runes_of_ascii "
-    :
-    options1 , } , }")).
-Eval vm_compute in ("<<<M167>>>" ++ check (runes_of_ascii "packet matchKey
-{ // packet A { u8 x, }
-zchar[ 65535
-//	t
-// packet A { u8 x, }
-] Foo @calculatedFrom(
-// " ++ [128512]%N ++ runes_of_ascii " emoji
-// a // b
-""\n"" ) ``, @tag(10 ) repeat
-x Logon`
-` , @calculatedFrom(
-    ""it's"" ) @rightPad (
-) zchar[ 255 ]	lengthOf
-    // @lengthOf(
-    , repeat uint8x`" ++ [233]%N ++ runes_of_ascii "`
 ,
     }
-")).
-Eval vm_compute in ("<<<T167>>>" ++ terms [mkTok 35 "packet" 1 0 false; mkTok 42 "matchKey" 1 7 false; mkTok 2 "{" 2 0 false; mkTok 44 "// packet A { u8 x, }" 2 2 true; mkTok 14 "zchar[" 3 0 false; mkTok 30 "65535" 3 7 false; mkTok 44 (string_of_bytes [47; 47; 9; 116]%N) 4 0 true; mkTok 44 "// packet A { u8 x, }" 5 0 true; mkTok 13 "]" 6 0 false; mkTok 42 "Foo" 6 2 false; mkTok 5 "@calculatedFrom(" 6 6 false; mkTok 44 (string_of_bytes [47; 47; 32; 240; 159; 152; 128; 32; 101; 109; 111; 106; 105]%N) 7 0 true; mkTok 44 "// a // b" 8 0 true; mkTok 31 """\n""" 9 0 false; mkTok 6 ")" 9 5 false; mkTok 43 "``" 9 7 false; mkTok 40 "," 9 9 false; mkTok 9 "@tag(" 9 11 false; mkTok 30 "10" 9 16 false; mkTok 6 ")" 9 19 false; mkTok 36 "repeat" 9 21 false; mkTok 42 "x" 10 0 false; mkTok 42 "Logon" 10 2 false; mkTok 43 (string_of_bytes [96; 10; 96]%N) 10 7 false; mkTok 40 "," 11 2 false; mkTok 5 "@calculatedFrom(" 11 4 false; mkTok 31 """it's""" 12 4 false; mkTok 6 ")" 12 11 false; mkTok 32 "@rightPad" 12 13 false; mkTok 8 "(" 12 23 false; mkTok 6 ")" 13 0 false; mkTok 14 "zchar[" 13 2 false; mkTok 30 "255" 13 9 false; mkTok 13 "]" 13 13 false; mkTok 42 "lengthOf" 13 15 false; mkTok 44 "// @lengthOf(" 14 4 true; mkTok 40 "," 15 4 false; mkTok 36 "repeat" 15 6 false; mkTok 42 "uint8x" 15 13 false; mkTok 43 (string_of_bytes [96; 195; 169; 96]%N) 15 19 false; mkTok 40 "," 16 0 false; mkTok 3 "}" 17 4 false; mkTok 0 "<EOF>" 18 0 false] (mkPacket (mkPtok 35 "packet" 1 0 0) (Some (mkPtok 3 "}" 17 4 41)) [(DPacket (mkPacketDef (mkSpan (mkPtok 35 "packet" 1 0 0) (mkPtok 3 "}" 17 4 41)) None (mkPtok 35 "packet" 1 0 0) (mkPtok 42 "matchKey" 1 7 1) (mkPtok 2 "{" 2 0 2) [(mkFieldWithAttr (mkSpan (mkPtok 14 "zchar[" 3 0 4) (mkPtok 40 "," 9 9 16)) [] (CheckSumField (mkSpan (mkPtok 14 "zchar[" 3 0 4) (mkPtok 40 "," 9 9 16)) (mkChecksumFieldDecl (mkSpan (mkPtok 14 "zchar[" 3 0 4) (mkPtok 40 "," 9 9 16)) (Some (TyFixed (mkSpan (mkPtok 14 "zchar[" 3 0 4) (mkPtok 13 "]" 6 0 8)) (mkFixedString (mkSpan (mkPtok 14 "zchar[" 3 0 4) (mkPtok 13 "]" 6 0 8)) (mkPtok 14 "zchar[" 3 0 4) (mkPtok 30 "65535" 3 7 5) (mkPtok 13 "]" 6 0 8)))) (mkPtok 42 "Foo" 6 2 9) (mkCalculatedFrom (mkSpan (mkPtok 5 "@calculatedFrom(" 6 6 10) (mkPtok 6 ")" 9 5 14)) (mkPtok 5 "@calculatedFrom(" 6 6 10) (mkPtok 31 """\n""" 9 0 13) (mkPtok 6 ")" 9 5 14)) (Some (mkPtok 43 "``" 9 7 15)) (mkPtok 40 "," 9 9 16)))); (mkFieldWithAttr (mkSpan (mkPtok 9 "@tag(" 9 11 17) (mkPtok 40 "," 11 2 24)) [(FATag (mkSpan (mkPtok 9 "@tag(" 9 11 17) (mkPtok 6 ")" 9 19 19)) (mkTagAttr (mkSpan (mkPtok 9 "@tag(" 9 11 17) (mkPtok 6 ")" 9 19 19)) (mkPtok 9 "@tag(" 9 11 17) (mkPtok 30 "10" 9 16 18) (mkPtok 6 ")" 9 19 19)))] (ObjectField (mkSpan (mkPtok 36 "repeat" 9 21 20) (mkPtok 40 "," 11 2 24)) (Some (mkPtok 36 "repeat" 9 21 20)) (mkPtok 42 "x" 10 0 21) (Some (mkPtok 42 "Logon" 10 2 22)) (Some (mkPtok 43 (string_of_bytes [96; 10; 96]%N) 10 7 23)) (mkPtok 40 "," 11 2 24))); (mkFieldWithAttr (mkSpan (mkPtok 5 "@calculatedFrom(" 11 4 25) (mkPtok 40 "," 15 4 36)) [(FACalculatedFrom (mkSpan (mkPtok 5 "@calculatedFrom(" 11 4 25) (mkPtok 6 ")" 12 11 27)) (mkCalculatedFrom (mkSpan (mkPtok 5 "@calculatedFrom(" 11 4 25) (mkPtok 6 ")" 12 11 27)) (mkPtok 5 "@calculatedFrom(" 11 4 25) (mkPtok 31 """it's""" 12 4 26) (mkPtok 6 ")" 12 11 27))); (FAPadding (mkSpan (mkPtok 32 "@rightPad" 12 13 28) (mkPtok 6 ")" 13 0 30)) (mkPaddingAttr (mkSpan (mkPtok 32 "@rightPad" 12 13 28) (mkPtok 6 ")" 13 0 30)) (mkPtok 32 "@rightPad" 12 13 28) (mkPtok 8 "(" 12 23 29) None (mkPtok 6 ")" 13 0 30)))] (MetaField (mkSpan (mkPtok 14 "zchar[" 13 2 31) (mkPtok 40 "," 15 4 36)) None (mkMetaDecl (mkSpan (mkPtok 14 "zchar[" 13 2 31) (mkPtok 40 "," 15 4 36)) (TyFixed (mkSpan (mkPtok 14 "zchar[" 13 2 31) (mkPtok 13 "]" 13 13 33)) (mkFixedString (mkSpan (mkPtok 14 "zchar[" 13 2 31) (mkPtok 13 "]" 13 13 33)) (mkPtok 14 "zchar[" 13 2 31) (mkPtok 30 "255" 13 9 32) (mkPtok 13 "]" 13 13 33))) (mkPtok 42 "lengthOf" 13 15 34) None (mkPtok 40 "," 15 4 36)))); (mkFieldWithAttr (mkSpan (mkPtok 36 "repeat" 15 6 37) (mkPtok 40 "," 16 0 40)) [] (ObjectField (mkSpan (mkPtok 36 "repeat" 15 6 37) (mkPtok 40 "," 16 0 40)) (Some (mkPtok 36 "repeat" 15 6 37)) (mkPtok 42 "uint8x" 15 13 38) None (Some (mkPtok 43 (string_of_bytes [96; 195; 169; 96]%N) 15 19 39)) (mkPtok 40 "," 16 0 40)))] (mkPtok 3 "}" 17 4 41)))])).
-Eval vm_compute in ("<<<M177>>>" ++ check (runes_of_ascii "// " ++ [128512]%N ++ runes_of_ascii " emoji
-packet i64_ { match repeatCount
-as u8x{ // packet A { u8 x, }
-7 : crc , },repeat uint32 roots ,
-} packet options1{ match  MetaDataX as
-chars
-{ ""CRC32""
-    :tag , 00 : lengthOf// a // b
-,	""" ++ [233]%N ++ runes_of_ascii "t" ++ [233]%N ++ runes_of_ascii """ : _x , } , uint16 trueish	,
-char[ 10 ] calculatedFrom	,
-@calculatedFrom( ""a\\""  ) @tag(
-65535 ) @rightPad (	'\x00' ) repeat int32 len , }
-")).
-Eval vm_compute in ("<<<M187>>>" ++ check (runes_of_ascii "  packet repeatCount {
-@rightPad (' ' )
-char[42]	Header @calculatedFrom( ""a\\"" )
-    ,
-// packet A { u8 x, }
-// packet A { u8 x, }
-@tag( 10 ) i64 options1@calculatedFrom( ""x y"" )
-,  Packet{ i64 lengthOf@calculatedFrom( ""abc""
-)
-    // " ++ [128512]%N ++ runes_of_ascii " emoji
-    , repeat zchar[
-00 ] i64_`u8 x,`
-    , } ,
-    string tag , string
-    o `" ++ [233]%N ++ runes_of_ascii "`
-/// triple
-// " ++ [128512]%N ++ runes_of_ascii " emoji
-, repeat char[  42] a1 `doc`,
-string leftPad @calculatedFrom(""a\\"" ), } 	 ")).
-Eval vm_compute in ("<<<M197>>>" ++ check (runes_of_ascii "MetaData zchar
-    {  i32 Z9_ `say ""hi""` ,
-    } // a // b")).
-Eval vm_compute in ("<<<M207>>>" ++ check (runes_of_ascii "options
-{ }	MetaData
-Foo {
-char[
-    0 ]  Logon `u8 x,` ,// packet A { u8 x, }
-zchar[ 255 ]
-    calculatedFrom `
-` ,
-    zchar[ 00 ]o
-    `u8 x,` ,char[255 ]
-Header `a\`// `tick` ""quote"" 'q'
-, // a // b
-Pad
-    Pad ,
-    } packet i8i8 {
-    u32
-    // " ++ [128512]%N ++ runes_of_ascii " emoji
-    float,// @lengthOf(
-As @calculatedFrom( ""// no comment"" ) , }")).
-Eval vm_compute in ("<<<M217>>>" ++ check (runes_of_ascii "packet zchar{
-    uint8x { MetaDataX , match stringy as calculatedFrom { """" : options1,""// no comment""
-: //x
-u
-""\" ++ [233]%N ++ runes_of_ascii """
-:  body
-, [
-""abc""
-    , ""it's"" , // c
-007 ] : packetx
-//	t
-// @lengthOf(
-,65535:
-roots
-, } ,  zchar[	10 ]
-lengthOf`two words`  ,	} // trailing space 
-,
-//
-// packet A { u8 x, }
-} root
-packet Header{repeat f32a o `two words`,
-    @lengthOf(
-    f32a ) char[	42
-]
-    uint8x ,	@tag( 42
-)
-    float@lengthOf(
-MetaDataX  ) , string T	, match _x as leftPad
-    { 0123456789 :
-    stringy, } ,  @leftPad // @lengthOf(
-( )repeat uint8x// c
-{
-string_ { char[ 255] a1 @calculatedFrom( ""abc""
-), metadata @lengthOf(	asx ),
-    } , repeat falsey /// triple
-,
-    Logon { As ,
-repeat char[]// trailing space 
-u
-    , } , },
-    @leftPad
-    (	' '
-    )
-char[ 10
-] charz
-@lengthOf(  float ), @calculatedFrom(
-    """ ++ [233]%N ++ runes_of_ascii "t" ++ [233]%N ++ runes_of_ascii """
-) i64 trueish
-    `two words`
-, } options{ options1	=7
-; u
-    // " ++ [27880; 37322]%N ++ runes_of_ascii "
-    = """" ; } 	 ")).
-Eval vm_compute in ("<<<M227>>>" ++ check (runes_of_ascii "packet lengthOf {
-f64 lengthOf
-@lengthOf(a1
-)
-`" ++ [28040; 24687; 31867; 22411]%N ++ runes_of_ascii "`
-, uint64 Logon `" ++ [233]%N ++ runes_of_ascii "`
-,	string Pad@calculatedFrom( ""\n"" )
-/// triple
-// trailing space 
-,zchar[ 0123456789
-    ] Foo @lengthOf( charz )	`// not a comment` ,
-@rightPad ()match falsey
-    as Packet{ """"
-    :
-u ,
-65535 :
-float ,[  4294967296
-] :	trueish // trailing space 
-,	[10 ,0123456789 ]  :
-Logon , 1 : roots [  7 ,
-""\" ++ [233]%N ++ runes_of_ascii """ , 00
-    //
-    ]:
-float , } ,}
-")).
-Eval vm_compute in ("<<<M237>>>" ++ check (runes_of_ascii "
-packet
-Z9_  { } packet T
-{
-repeat
-    charz {match float as // " ++ [128512]%N ++ runes_of_ascii " emoji
-stringy {00 : f32a [ 00
-    //x
-    , 00 ,""a\\""
-// packet A { u8 x, }
+packet a1 {
+repeat i32 x  , i16
+msg_type @calculatedFrom( ""it's""  ) `crlf
+line`, }  packet
 // a // b
-, 0 ,	7, 0 ] : As , } ,//	t
-uint32 asx ,
-//
-/// triple
-repeat u8x {
-    repeat
-//x
-//
-u8 string_ ,
-} , } , }
-")).
-Eval vm_compute in ("<<<T237>>>" ++ terms [mkTok 35 "packet" 2 0 false; mkTok 42 "Z9_" 3 0 false; mkTok 2 "{" 3 5 false; mkTok 3 "}" 3 7 false; mkTok 35 "packet" 3 9 false; mkTok 42 "T" 3 16 false; mkTok 2 "{" 4 0 false; mkTok 36 "repeat" 5 0 false; mkTok 42 "charz" 6 4 false; mkTok 2 "{" 6 10 false; mkTok 38 "match" 6 11 false; mkTok 42 "float" 6 17 false; mkTok 17 "as" 6 23 false; mkTok 44 (string_of_bytes [47; 47; 32; 240; 159; 152; 128; 32; 101; 109; 111; 106; 105]%N) 6 26 true; mkTok 42 "stringy" 7 0 false; mkTok 2 "{" 7 8 false; mkTok 30 "00" 7 9 false; mkTok 39 ":" 7 12 false; mkTok 42 "f32a" 7 14 false; mkTok 18 "[" 7 19 false; mkTok 30 "00" 7 21 false; mkTok 44 "//x" 8 4 true; mkTok 40 "," 9 4 false; mkTok 30 "00" 9 6 false; mkTok 40 "," 9 9 false; mkTok 31 """a\\""" 9 10 false; mkTok 44 "// packet A { u8 x, }" 10 0 true; mkTok 44 "// a // b" 11 0 true; mkTok 40 "," 12 0 false; mkTok 30 "0" 12 2 false; mkTok 40 "," 12 4 false; mkTok 30 "7" 12 6 false; mkTok 40 "," 12 7 false; mkTok 30 "0" 12 9 false; mkTok 13 "]" 12 11 false; mkTok 39 ":" 12 13 false; mkTok 42 "As" 12 15 false; mkTok 40 "," 12 18 false; mkTok 3 "}" 12 20 false; mkTok 40 "," 12 22 false; mkTok 44 (string_of_bytes [47; 47; 9; 116]%N) 12 23 true; mkTok 22 "uint32" 13 0 false; mkTok 42 "asx" 13 7 false; mkTok 40 "," 13 11 false; mkTok 44 "//" 14 0 true; mkTok 44 "/// triple" 15 0 true; mkTok 36 "repeat" 16 0 false; mkTok 42 "u8x" 16 7 false; mkTok 2 "{" 16 11 false; mkTok 36 "repeat" 17 4 false; mkTok 44 "//x" 18 0 true; mkTok 44 "//" 19 0 true; mkTok 20 "u8" 20 0 false; mkTok 42 "string_" 20 3 false; mkTok 40 "," 20 11 false; mkTok 3 "}" 21 0 false; mkTok 40 "," 21 2 false; mkTok 3 "}" 21 4 false; mkTok 40 "," 21 6 false; mkTok 3 "}" 21 8 false; mkTok 0 "<EOF>" 22 0 false] (mkPacket (mkPtok 35 "packet" 2 0 0) (Some (mkPtok 3 "}" 21 8 59)) [(DPacket (mkPacketDef (mkSpan (mkPtok 35 "packet" 2 0 0) (mkPtok 3 "}" 3 7 3)) None (mkPtok 35 "packet" 2 0 0) (mkPtok 42 "Z9_" 3 0 1) (mkPtok 2 "{" 3 5 2) [] (mkPtok 3 "}" 3 7 3))); (DPacket (mkPacketDef (mkSpan (mkPtok 35 "packet" 3 9 4) (mkPtok 3 "}" 21 8 59)) None (mkPtok 35 "packet" 3 9 4) (mkPtok 42 "T" 3 16 5) (mkPtok 2 "{" 4 0 6) [(mkFieldWithAttr (mkSpan (mkPtok 36 "repeat" 5 0 7) (mkPtok 40 "," 21 6 58)) [] (InerObjectField (mkSpan (mkPtok 36 "repeat" 5 0 7) (mkPtok 40 "," 21 6 58)) (Some (mkPtok 36 "repeat" 5 0 7)) (InerObjectDecl (mkSpan (mkPtok 42 "charz" 6 4 8) (mkPtok 3 "}" 21 4 57)) (mkPtok 42 "charz" 6 4 8) (mkPtok 2 "{" 6 10 9) [(MatchField (mkSpan (mkPtok 38 "match" 6 11 10) (mkPtok 40 "," 12 22 39)) (mkMatchFieldDecl (mkSpan (mkPtok 38 "match" 6 11 10) (mkPtok 3 "}" 12 20 38)) (mkPtok 38 "match" 6 11 10) (mkPtok 42 "float" 6 17 11) (mkPtok 17 "as" 6 23 12) (mkPtok 42 "stringy" 7 0 14) (mkPtok 2 "{" 7 8 15) [(mkMatchPair (mkSpan (mkPtok 30 "00" 7 9 16) (mkPtok 42 "f32a" 7 14 18)) (MKDigits (mkPtok 30 "00" 7 9 16)) (mkPtok 39 ":" 7 12 17) (mkPtok 42 "f32a" 7 14 18) None); (mkMatchPair (mkSpan (mkPtok 18 "[" 7 19 19) (mkPtok 40 "," 12 18 37)) (MKList (mkKeyList (mkSpan (mkPtok 18 "[" 7 19 19) (mkPtok 13 "]" 12 11 34)) (mkPtok 18 "[" 7 19 19) (mkPtok 30 "00" 7 21 20) [((mkPtok 40 "," 9 4 22), (mkPtok 30 "00" 9 6 23)); ((mkPtok 40 "," 9 9 24), (mkPtok 31 """a\\""" 9 10 25)); ((mkPtok 40 "," 12 0 28), (mkPtok 30 "0" 12 2 29)); ((mkPtok 40 "," 12 4 30), (mkPtok 30 "7" 12 6 31)); ((mkPtok 40 "," 12 7 32), (mkPtok 30 "0" 12 9 33))] (mkPtok 13 "]" 12 11 34))) (mkPtok 39 ":" 12 13 35) (mkPtok 42 "As" 12 15 36) (Some (mkPtok 40 "," 12 18 37)))] (mkPtok 3 "}" 12 20 38)) (mkPtok 40 "," 12 22 39)); (MetaField (mkSpan (mkPtok 22 "uint32" 13 0 41) (mkPtok 40 "," 13 11 43)) None (mkMetaDecl (mkSpan (mkPtok 22 "uint32" 13 0 41) (mkPtok 40 "," 13 11 43)) (TyBasic (mkSpan (mkPtok 22 "uint32" 13 0 41) (mkPtok 22 "uint32" 13 0 41)) (mkBasicType (mkSpan (mkPtok 22 "uint32" 13 0 41) (mkPtok 22 "uint32" 13 0 41)) (mkPtok 22 "uint32" 13 0 41))) (mkPtok 42 "asx" 13 7 42) None (mkPtok 40 "," 13 11 43))); (InerObjectField (mkSpan (mkPtok 36 "repeat" 16 0 46) (mkPtok 40 "," 21 2 56)) (Some (mkPtok 36 "repeat" 16 0 46)) (InerObjectDecl (mkSpan (mkPtok 42 "u8x" 16 7 47) (mkPtok 3 "}" 21 0 55)) (mkPtok 42 "u8x" 16 7 47) (mkPtok 2 "{" 16 11 48) [(MetaField (mkSpan (mkPtok 36 "repeat" 17 4 49) (mkPtok 40 "," 20 11 54)) (Some (mkPtok 36 "repeat" 17 4 49)) (mkMetaDecl (mkSpan (mkPtok 20 "u8" 20 0 52) (mkPtok 40 "," 20 11 54)) (TyBasic (mkSpan (mkPtok 20 "u8" 20 0 52) (mkPtok 20 "u8" 20 0 52)) (mkBasicType (mkSpan (mkPtok 20 "u8" 20 0 52) (mkPtok 20 "u8" 20 0 52)) (mkPtok 20 "u8" 20 0 52))) (mkPtok 42 "string_" 20 3 53) None (mkPtok 40 "," 20 11 54)))] (mkPtok 3 "}" 21 0 55)) (mkPtok 40 "," 21 2 56))] (mkPtok 3 "}" 21 4 57)) (mkPtok 40 "," 21 6 58)))] (mkPtok 3 "}" 21 8 59)))])).
-Eval vm_compute in ("<<<M247>>>" ++ check (runes_of_ascii "MetaData
-    a1 { // a // b
-}options { o
-= 255
-; } packet f32a //
-{ uint8 _x	@calculatedFrom( ""x y""
-)	,}MetaData
-    options1
-{  f64 lengthOf `it's`
-,lengthOf metadata,	int8 crc
+// @lengthOf(
+Z9_  {repeat asx
+    `100% of %d` ,int ,
+// " ++ [128512]%N ++ runes_of_ascii " emoji
+// " ++ [27880; 37322]%N ++ runes_of_ascii "
+@tag( 10) int16  Logon ,i64 roots `line1
+line2` , u64 Pad@calculatedFrom(  ""\" ++ [233]%N ++ runes_of_ascii """ )	,@leftPad
+// " ++ [27880; 37322]%N ++ runes_of_ascii "
+// a // b
+(
+) @leftPad ( ' ' ) @tag(007 )
+u
+@calculatedFrom(""" ++ [233]%N ++ runes_of_ascii "t" ++ [233]%N ++ runes_of_ascii """ ) `
 `
-` /// triple
 ,
-    char[0123456789//	t
-]o ,
-// " ++ [128512]%N ++ runes_of_ascii " emoji
-// packet A { u8 x, }
-char[] //	t
-a1,}
+}	packet  asx {string i64_ @lengthOf( pack ) ,@tag(
+10)
+char[ 1 ]T  , repeat leftPad { repeat uint64 repeatCount ,
+int64
+// " ++ [27880; 37322]%N ++ runes_of_ascii "
+// trailing space 
+pack
+`it's` , repeat char[ 255  ] BodyLength, } ,
+// `tick` ""quote"" 'q'
+//	t
+@lengthOf( f32a ) calculatedFrom { roots//
+,
+match metadata as x_y_z
+// 50% %s
+// 50% %s
+{
+42
+:metadata
+[ ""\n""
+,""a\\""]:As [  0,"""" ,42 , 4294967296 ,""abc"" , ""CRC32"", ""a	b"" , 007 ]
+:falsey,
+[
+    ""a	b""
+, 7 ]
+: i64_// @lengthOf(
+,
+[ """ ++ [28040; 24687]%N ++ runes_of_ascii """
+,
+""{,}"" ,  65535 ,
+42 , ""{,}"" ,255 ,
+255
+    ]: string_/// triple
+,
+    7 // a // b
+: T }
+, } , }")).
+Eval vm_compute in ("<<<M17>>>" ++ check (runes_of_ascii "MetaData
+matchKey
+    { trueish Packet `// not a comment` , stringy calculatedFrom`tab	here`
+    //
+    , matchKey  o `doc` , } // 50% %s")).
+Eval vm_compute in ("<<<M27>>>" ++ check (runes_of_ascii "MetaData charz
+/// triple
+// 50% %s
+{
+u32 metadata , }
+root packet u{ @tag( 42 )
+    repeat uint8
+Foo , }
 ")).
-Eval vm_compute in ("<<<M257>>>" ++ check (runes_of_ascii "
+Eval vm_compute in ("<<<T27>>>" ++ terms [mkTok 37 "MetaData" 1 0 false; mkTok 42 "charz" 1 9 false; mkTok 44 "/// triple" 2 0 true; mkTok 44 "// 50% %s" 3 0 true; mkTok 2 "{" 4 0 false; mkTok 22 "u32" 5 0 false; mkTok 42 "metadata" 5 4 false; mkTok 40 "," 5 13 false; mkTok 3 "}" 5 15 false; mkTok 34 "root" 6 0 false; mkTok 35 "packet" 6 5 false; mkTok 42 "u" 6 12 false; mkTok 2 "{" 6 13 false; mkTok 9 "@tag(" 6 15 false; mkTok 30 "42" 6 21 false; mkTok 6 ")" 6 24 false; mkTok 36 "repeat" 7 4 false; mkTok 20 "uint8" 7 11 false; mkTok 42 "Foo" 8 0 false; mkTok 40 "," 8 4 false; mkTok 3 "}" 8 6 false; mkTok 0 "<EOF>" 9 0 false] (mkPacket (mkPtok 37 "MetaData" 1 0 0) (Some (mkPtok 3 "}" 8 6 20)) [(DMeta (mkMetaDef (mkSpan (mkPtok 37 "MetaData" 1 0 0) (mkPtok 3 "}" 5 15 8)) (mkPtok 37 "MetaData" 1 0 0) (mkPtok 42 "charz" 1 9 1) (mkPtok 2 "{" 4 0 4) [(MIDecl (mkMetaDecl (mkSpan (mkPtok 22 "u32" 5 0 5) (mkPtok 40 "," 5 13 7)) (TyBasic (mkSpan (mkPtok 22 "u32" 5 0 5) (mkPtok 22 "u32" 5 0 5)) (mkBasicType (mkSpan (mkPtok 22 "u32" 5 0 5) (mkPtok 22 "u32" 5 0 5)) (mkPtok 22 "u32" 5 0 5))) (mkPtok 42 "metadata" 5 4 6) None (mkPtok 40 "," 5 13 7)))] (mkPtok 3 "}" 5 15 8))); (DPacket (mkPacketDef (mkSpan (mkPtok 34 "root" 6 0 9) (mkPtok 3 "}" 8 6 20)) (Some (mkPtok 34 "root" 6 0 9)) (mkPtok 35 "packet" 6 5 10) (mkPtok 42 "u" 6 12 11) (mkPtok 2 "{" 6 13 12) [(mkFieldWithAttr (mkSpan (mkPtok 9 "@tag(" 6 15 13) (mkPtok 40 "," 8 4 19)) [(FATag (mkSpan (mkPtok 9 "@tag(" 6 15 13) (mkPtok 6 ")" 6 24 15)) (mkTagAttr (mkSpan (mkPtok 9 "@tag(" 6 15 13) (mkPtok 6 ")" 6 24 15)) (mkPtok 9 "@tag(" 6 15 13) (mkPtok 30 "42" 6 21 14) (mkPtok 6 ")" 6 24 15)))] (MetaField (mkSpan (mkPtok 36 "repeat" 7 4 16) (mkPtok 40 "," 8 4 19)) (Some (mkPtok 36 "repeat" 7 4 16)) (mkMetaDecl (mkSpan (mkPtok 20 "uint8" 7 11 17) (mkPtok 40 "," 8 4 19)) (TyBasic (mkSpan (mkPtok 20 "uint8" 7 11 17) (mkPtok 20 "uint8" 7 11 17)) (mkBasicType (mkSpan (mkPtok 20 "uint8" 7 11 17) (mkPtok 20 "uint8" 7 11 17)) (mkPtok 20 "uint8" 7 11 17))) (mkPtok 42 "Foo" 8 0 18) None (mkPtok 40 "," 8 4 19))))] (mkPtok 3 "}" 8 6 20)))])).
+Eval vm_compute in ("<<<M37>>>" ++ check (runes_of_ascii "MetaData metadata {
+    int8
+MetaDataX
+    ,char
+Header /// triple
+`say ""hi""` , A msg_type ,}
+")).
+Eval vm_compute in ("<<<M47>>>" ++ check (runes_of_ascii "root
+packet
+metadata //	t
+{ @lengthOf( rootA ) string
+    Logon@lengthOf( u8x
+    ) , uint8 repeatCount @lengthOf( //x
+crc )
+`it's` , @lengthOf( MetaDataX ) match x as x_y_z { 65535:
+uint8x, // " ++ [27880; 37322]%N ++ runes_of_ascii "
+[	""// no comment""
+    , ""// no comment"" ,  """ ++ [233]%N ++ runes_of_ascii "t" ++ [233]%N ++ runes_of_ascii """ , ""\" ++ [233]%N ++ runes_of_ascii """ , //
+7	, 1,""" ++ [128512]%N ++ runes_of_ascii """] :BodyLength ,
+    """ ++ [128512]%N ++ runes_of_ascii """ :
+    u8x ,65535 :metadata,	""" ++ [233]%N ++ runes_of_ascii "t" ++ [233]%N ++ runes_of_ascii """
+/// triple
+// 50% %s
+: Packet,// packet A { u8 x, }
+} , packetx i8i8
+    `100% of %d` ,  char[] u8x
+    @calculatedFrom(""{,}""  )
+`u8 x,`, zchar[ 3
+] Z9_
+,@calculatedFrom( """"
+    ) @lengthOf(	trueish ) @lengthOf(
+lengthOf) tag , uint64 // packet A { u8 x, }
+metadata // 50% %s
+`100% of %d`
+,
+}
+")).
+Eval vm_compute in ("<<<M57>>>" ++ check (runes_of_ascii "packet //	t
+trueish
+{/// triple
+string crc`two words`,
+T chars , }
+packet
+asx	{ @leftPad ( '0'
+) match x as u8x { [ ""{,}"" ,
+1 ,
+65535, ""// no comment""	,  7,3 ,// c
+10
+,	42 ]:
+    o ,
+}
+, // c
+@leftPad(	'0'	) //	t
+repeat	int64
+    f32a`doc` ,  @tag( 4294967296)	@rightPad
+    (
+// trailing space 
+//x
+' ') @tag( 3)	o
+`u8 x,` ,} packet	options1//x
+{ // `tick` ""quote"" 'q'
+char crc,
+    rootA
+//
+// a // b
+`a\` ,
+    }
+")).
+Eval vm_compute in ("<<<M67>>>" ++ check (runes_of_ascii "packet
+    BodyLength // `tick` ""quote"" 'q'
+{
+Foo BodyLength , char[] int @calculatedFrom(""// no comment""
+    ) ,match pack
+as	i8i8
+// c
+// c
+{
+""a\""b"" :
+// c
+//x
+rootA ,
+    } ,}MetaData pack
+    { pack packetx// `tick` ""quote"" 'q'
+, i8 f32a , u64
+MetaDataX ,  }
+options { tag = /// triple
+true
+    // a // b
+    ;
+    falsey = true // " ++ [128512]%N ++ runes_of_ascii " emoji
+trueish
+    = ""1"" ; T
+    // 50% %s
+    = 7 Z9_=  '0' // `tick` ""quote"" 'q'
+;
+    }
+options { leftPad =true ;
+options1 = float64 Header = ' ' } // " ++ [27880; 37322]%N)).
+Eval vm_compute in ("<<<M77>>>" ++ check (runes_of_ascii "options { Pad
+    = char[ 7
+] ;	asx
+= ""CRC32"" ; a1 =	string ;}")).
+Eval vm_compute in ("<<<M87>>>" ++ check (runes_of_ascii "root
+    // @lengthOf(
+    packet falsey { // c
+repeat// " ++ [128512]%N ++ runes_of_ascii " emoji
+zchar[ 42	]  f32a ,
+matchKey@lengthOf( // packet A { u8 x, }
+x ) , // `tick` ""quote"" 'q'
+@calculatedFrom(""{,}""
+) @leftPad
+('\x00' ) //	t
+repeat	f32a , @rightPad ( '\x00'
+) T @lengthOf(	o ),
+    }")).
+Eval vm_compute in ("<<<M97>>>" ++ check (runes_of_ascii "packet calculatedFrom { repeat string x_y_z,As  @lengthOf(  options1
+    ) `say ""hi""`
+, @rightPad( ) int	{  repeat
+As
+    rootA``	,char[]
+// " ++ [27880; 37322]%N ++ runes_of_ascii "
+// `tick` ""quote"" 'q'
+string_ ,// " ++ [27880; 37322]%N ++ runes_of_ascii "
+repeat
+    // " ++ [128512]%N ++ runes_of_ascii " emoji
+    u128	u, } ,
+    } packet
+    Header{ }
+packet charz {@lengthOf( rootA) u64 calculatedFrom @lengthOf( // c
+lengthOf ) `100% of %d`
+// 50% %s
+// c
+, asx @calculatedFrom( ""// no comment"" // `tick` ""quote"" 'q'
+) , int32 len , } packet uint8x
+{
+    @tag(7 ) @calculatedFrom(""\n"" ) string _x , @calculatedFrom( ""`tick`""
+    // trailing space 
+    )@leftPad
+    // trailing space 
+    (' '
+)// `tick` ""quote"" 'q'
+zchar
+,//x
+@lengthOf( x_y_z ) o , i64_	pack ,
+@leftPad (
+)
+    repeat zchar[ 255 //
+] u , i8
+    chars @calculatedFrom(
+    // c
+    ""a\\"" ) `crlf
+line` ,
+char u128 // a // b
+`` ,
+@calculatedFrom(/// triple
+""\n"" )	repeat	tag body	,}
+    // packet A { u8 x, }
+    options{
+    calculatedFrom =  i64 pack	= uint16 }
+")).
+Eval vm_compute in ("<<<T97>>>" ++ terms [mkTok 35 "packet" 1 0 false; mkTok 42 "calculatedFrom" 1 7 false; mkTok 2 "{" 1 22 false; mkTok 36 "repeat" 1 24 false; mkTok 15 "string" 1 31 false; mkTok 42 "x_y_z" 1 38 false; mkTok 40 "," 1 43 false; mkTok 42 "As" 1 44 false; mkTok 7 "@lengthOf(" 1 48 false; mkTok 42 "options1" 1 60 false; mkTok 6 ")" 2 4 false; mkTok 43 "`say ""hi""`" 2 6 false; mkTok 40 "," 3 0 false; mkTok 32 "@rightPad" 3 2 false; mkTok 8 "(" 3 11 false; mkTok 6 ")" 3 13 false; mkTok 42 "int" 3 15 false; mkTok 2 "{" 3 19 false; mkTok 36 "repeat" 3 22 false; mkTok 42 "As" 4 0 false; mkTok 42 "rootA" 5 4 false; mkTok 43 "``" 5 9 false; mkTok 40 "," 5 12 false; mkTok 16 "char[]" 5 13 false; mkTok 44 (string_of_bytes [47; 47; 32; 230; 179; 168; 233; 135; 138]%N) 6 0 true; mkTok 44 "// `tick` ""quote"" 'q'" 7 0 true; mkTok 42 "string_" 8 0 false; mkTok 40 "," 8 8 false; mkTok 44 (string_of_bytes [47; 47; 32; 230; 179; 168; 233; 135; 138]%N) 8 9 true; mkTok 36 "repeat" 9 0 false; mkTok 44 (string_of_bytes [47; 47; 32; 240; 159; 152; 128; 32; 101; 109; 111; 106; 105]%N) 10 4 true; mkTok 42 "u128" 11 4 false; mkTok 42 "u" 11 9 false; mkTok 40 "," 11 10 false; mkTok 3 "}" 11 12 false; mkTok 40 "," 11 14 false; mkTok 3 "}" 12 4 false; mkTok 35 "packet" 12 6 false; mkTok 42 "Header" 13 4 false; mkTok 2 "{" 13 10 false; mkTok 3 "}" 13 12 false; mkTok 35 "packet" 14 0 false; mkTok 42 "charz" 14 7 false; mkTok 2 "{" 14 13 false; mkTok 7 "@lengthOf(" 14 14 false; mkTok 42 "rootA" 14 25 false; mkTok 6 ")" 14 30 false; mkTok 23 "u64" 14 32 false; mkTok 42 "calculatedFrom" 14 36 false; mkTok 7 "@lengthOf(" 14 51 false; mkTok 44 "// c" 14 62 true; mkTok 42 "lengthOf" 15 0 false; mkTok 6 ")" 15 9 false; mkTok 43 "`100% of %d`" 15 11 false; mkTok 44 "// 50% %s" 16 0 true; mkTok 44 "// c" 17 0 true; mkTok 40 "," 18 0 false; mkTok 42 "asx" 18 2 false; mkTok 5 "@calculatedFrom(" 18 6 false; mkTok 31 """// no comment""" 18 23 false; mkTok 44 "// `tick` ""quote"" 'q'" 18 39 true; mkTok 6 ")" 19 0 false; mkTok 40 "," 19 2 false; mkTok 26 "int32" 19 4 false; mkTok 42 "len" 19 10 false; mkTok 40 "," 19 14 false; mkTok 3 "}" 19 16 false; mkTok 35 "packet" 19 18 false; mkTok 42 "uint8x" 19 25 false; mkTok 2 "{" 20 0 false; mkTok 9 "@tag(" 21 4 false; mkTok 30 "7" 21 9 false; mkTok 6 ")" 21 11 false; mkTok 5 "@calculatedFrom(" 21 13 false; mkTok 31 """\n""" 21 29 false; mkTok 6 ")" 21 34 false; mkTok 15 "string" 21 36 false; mkTok 42 "_x" 21 43 false; mkTok 40 "," 21 46 false; mkTok 5 "@calculatedFrom(" 21 48 false; mkTok 31 """`tick`""" 21 65 false; mkTok 44 "// trailing space " 22 4 true; mkTok 6 ")" 23 4 false; mkTok 32 "@leftPad" 23 5 false; mkTok 44 "// trailing space " 24 4 true; mkTok 8 "(" 25 4 false; mkTok 33 "' '" 25 5 false; mkTok 6 ")" 26 0 false; mkTok 44 "// `tick` ""quote"" 'q'" 26 1 true; mkTok 42 "zchar" 27 0 false; mkTok 40 "," 28 0 false; mkTok 44 "//x" 28 1 true; mkTok 7 "@lengthOf(" 29 0 false; mkTok 42 "x_y_z" 29 11 false; mkTok 6 ")" 29 17 false; mkTok 42 "o" 29 19 false; mkTok 40 "," 29 21 false; mkTok 42 "i64_" 29 23 false; mkTok 42 "pack" 29 28 false; mkTok 40 "," 29 33 false; mkTok 32 "@leftPad" 30 0 false; mkTok 8 "(" 30 9 false; mkTok 6 ")" 31 0 false; mkTok 36 "repeat" 32 4 false; mkTok 14 "zchar[" 32 11 false; mkTok 30 "255" 32 18 false; mkTok 44 "//" 32 22 true; mkTok 13 "]" 33 0 false; mkTok 42 "u" 33 2 false; mkTok 40 "," 33 4 false; mkTok 24 "i8" 33 6 false; mkTok 42 "chars" 34 4 false; mkTok 5 "@calculatedFrom(" 34 10 false; mkTok 44 "// c" 35 4 true; mkTok 31 """a\\""" 36 4 false; mkTok 6 ")" 36 10 false; mkTok 43 (string_of_bytes [96; 99; 114; 108; 102; 13; 10; 108; 105; 110; 101; 96]%N) 36 12 false; mkTok 40 "," 37 6 false; mkTok 19 "char" 38 0 false; mkTok 42 "u128" 38 5 false; mkTok 44 "// a // b" 38 10 true; mkTok 43 "``" 39 0 false; mkTok 40 "," 39 3 false; mkTok 5 "@calculatedFrom(" 40 0 false; mkTok 44 "/// triple" 40 16 true; mkTok 31 """\n""" 41 0 false; mkTok 6 ")" 41 5 false; mkTok 36 "repeat" 41 7 false; mkTok 42 "tag" 41 14 false; mkTok 42 "body" 41 18 false; mkTok 40 "," 41 23 false; mkTok 3 "}" 41 24 false; mkTok 44 "// packet A { u8 x, }" 42 4 true; mkTok 1 "options" 43 4 false; mkTok 2 "{" 43 11 false; mkTok 42 "calculatedFrom" 44 4 false; mkTok 4 "=" 44 19 false; mkTok 27 "i64" 44 22 false; mkTok 42 "pack" 44 26 false; mkTok 4 "=" 44 31 false; mkTok 21 "uint16" 44 33 false; mkTok 3 "}" 44 40 false; mkTok 0 "<EOF>" 45 0 false] (mkPacket (mkPtok 35 "packet" 1 0 0) (Some (mkPtok 3 "}" 44 40 141)) [(DPacket (mkPacketDef (mkSpan (mkPtok 35 "packet" 1 0 0) (mkPtok 3 "}" 12 4 36)) None (mkPtok 35 "packet" 1 0 0) (mkPtok 42 "calculatedFrom" 1 7 1) (mkPtok 2 "{" 1 22 2) [(mkFieldWithAttr (mkSpan (mkPtok 36 "repeat" 1 24 3) (mkPtok 40 "," 1 43 6)) [] (MetaField (mkSpan (mkPtok 36 "repeat" 1 24 3) (mkPtok 40 "," 1 43 6)) (Some (mkPtok 36 "repeat" 1 24 3)) (mkMetaDecl (mkSpan (mkPtok 15 "string" 1 31 4) (mkPtok 40 "," 1 43 6)) (TyDynamic (mkSpan (mkPtok 15 "string" 1 31 4) (mkPtok 15 "string" 1 31 4)) (mkDynamicString (mkSpan (mkPtok 15 "string" 1 31 4) (mkPtok 15 "string" 1 31 4)) (mkPtok 15 "string" 1 31 4))) (mkPtok 42 "x_y_z" 1 38 5) None (mkPtok 40 "," 1 43 6)))); (mkFieldWithAttr (mkSpan (mkPtok 42 "As" 1 44 7) (mkPtok 40 "," 3 0 12)) [] (LengthField (mkSpan (mkPtok 42 "As" 1 44 7) (mkPtok 40 "," 3 0 12)) (mkLengthFieldDecl (mkSpan (mkPtok 42 "As" 1 44 7) (mkPtok 40 "," 3 0 12)) None (mkPtok 42 "As" 1 44 7) (mkLengthOf (mkSpan (mkPtok 7 "@lengthOf(" 1 48 8) (mkPtok 6 ")" 2 4 10)) (mkPtok 7 "@lengthOf(" 1 48 8) (mkPtok 42 "options1" 1 60 9) (mkPtok 6 ")" 2 4 10)) (Some (mkPtok 43 "`say ""hi""`" 2 6 11)) (mkPtok 40 "," 3 0 12)))); (mkFieldWithAttr (mkSpan (mkPtok 32 "@rightPad" 3 2 13) (mkPtok 40 "," 11 14 35)) [(FAPadding (mkSpan (mkPtok 32 "@rightPad" 3 2 13) (mkPtok 6 ")" 3 13 15)) (mkPaddingAttr (mkSpan (mkPtok 32 "@rightPad" 3 2 13) (mkPtok 6 ")" 3 13 15)) (mkPtok 32 "@rightPad" 3 2 13) (mkPtok 8 "(" 3 11 14) None (mkPtok 6 ")" 3 13 15)))] (InerObjectField (mkSpan (mkPtok 42 "int" 3 15 16) (mkPtok 40 "," 11 14 35)) None (InerObjectDecl (mkSpan (mkPtok 42 "int" 3 15 16) (mkPtok 3 "}" 11 12 34)) (mkPtok 42 "int" 3 15 16) (mkPtok 2 "{" 3 19 17) [(ObjectField (mkSpan (mkPtok 36 "repeat" 3 22 18) (mkPtok 40 "," 5 12 22)) (Some (mkPtok 36 "repeat" 3 22 18)) (mkPtok 42 "As" 4 0 19) (Some (mkPtok 42 "rootA" 5 4 20)) (Some (mkPtok 43 "``" 5 9 21)) (mkPtok 40 "," 5 12 22)); (MetaField (mkSpan (mkPtok 16 "char[]" 5 13 23) (mkPtok 40 "," 8 8 27)) None (mkMetaDecl (mkSpan (mkPtok 16 "char[]" 5 13 23) (mkPtok 40 "," 8 8 27)) (TyDynamic (mkSpan (mkPtok 16 "char[]" 5 13 23) (mkPtok 16 "char[]" 5 13 23)) (mkDynamicString (mkSpan (mkPtok 16 "char[]" 5 13 23) (mkPtok 16 "char[]" 5 13 23)) (mkPtok 16 "char[]" 5 13 23))) (mkPtok 42 "string_" 8 0 26) None (mkPtok 40 "," 8 8 27))); (ObjectField (mkSpan (mkPtok 36 "repeat" 9 0 29) (mkPtok 40 "," 11 10 33)) (Some (mkPtok 36 "repeat" 9 0 29)) (mkPtok 42 "u128" 11 4 31) (Some (mkPtok 42 "u" 11 9 32)) None (mkPtok 40 "," 11 10 33))] (mkPtok 3 "}" 11 12 34)) (mkPtok 40 "," 11 14 35)))] (mkPtok 3 "}" 12 4 36))); (DPacket (mkPacketDef (mkSpan (mkPtok 35 "packet" 12 6 37) (mkPtok 3 "}" 13 12 40)) None (mkPtok 35 "packet" 12 6 37) (mkPtok 42 "Header" 13 4 38) (mkPtok 2 "{" 13 10 39) [] (mkPtok 3 "}" 13 12 40))); (DPacket (mkPacketDef (mkSpan (mkPtok 35 "packet" 14 0 41) (mkPtok 3 "}" 19 16 66)) None (mkPtok 35 "packet" 14 0 41) (mkPtok 42 "charz" 14 7 42) (mkPtok 2 "{" 14 13 43) [(mkFieldWithAttr (mkSpan (mkPtok 7 "@lengthOf(" 14 14 44) (mkPtok 40 "," 18 0 56)) [(FALengthOf (mkSpan (mkPtok 7 "@lengthOf(" 14 14 44) (mkPtok 6 ")" 14 30 46)) (mkLengthOf (mkSpan (mkPtok 7 "@lengthOf(" 14 14 44) (mkPtok 6 ")" 14 30 46)) (mkPtok 7 "@lengthOf(" 14 14 44) (mkPtok 42 "rootA" 14 25 45) (mkPtok 6 ")" 14 30 46)))] (LengthField (mkSpan (mkPtok 23 "u64" 14 32 47) (mkPtok 40 "," 18 0 56)) (mkLengthFieldDecl (mkSpan (mkPtok 23 "u64" 14 32 47) (mkPtok 40 "," 18 0 56)) (Some (TyBasic (mkSpan (mkPtok 23 "u64" 14 32 47) (mkPtok 23 "u64" 14 32 47)) (mkBasicType (mkSpan (mkPtok 23 "u64" 14 32 47) (mkPtok 23 "u64" 14 32 47)) (mkPtok 23 "u64" 14 32 47)))) (mkPtok 42 "calculatedFrom" 14 36 48) (mkLengthOf (mkSpan (mkPtok 7 "@lengthOf(" 14 51 49) (mkPtok 6 ")" 15 9 52)) (mkPtok 7 "@lengthOf(" 14 51 49) (mkPtok 42 "lengthOf" 15 0 51) (mkPtok 6 ")" 15 9 52)) (Some (mkPtok 43 "`100% of %d`" 15 11 53)) (mkPtok 40 "," 18 0 56)))); (mkFieldWithAttr (mkSpan (mkPtok 42 "asx" 18 2 57) (mkPtok 40 "," 19 2 62)) [] (CheckSumField (mkSpan (mkPtok 42 "asx" 18 2 57) (mkPtok 40 "," 19 2 62)) (mkChecksumFieldDecl (mkSpan (mkPtok 42 "asx" 18 2 57) (mkPtok 40 "," 19 2 62)) None (mkPtok 42 "asx" 18 2 57) (mkCalculatedFrom (mkSpan (mkPtok 5 "@calculatedFrom(" 18 6 58) (mkPtok 6 ")" 19 0 61)) (mkPtok 5 "@calculatedFrom(" 18 6 58) (mkPtok 31 """// no comment""" 18 23 59) (mkPtok 6 ")" 19 0 61)) None (mkPtok 40 "," 19 2 62)))); (mkFieldWithAttr (mkSpan (mkPtok 26 "int32" 19 4 63) (mkPtok 40 "," 19 14 65)) [] (MetaField (mkSpan (mkPtok 26 "int32" 19 4 63) (mkPtok 40 "," 19 14 65)) None (mkMetaDecl (mkSpan (mkPtok 26 "int32" 19 4 63) (mkPtok 40 "," 19 14 65)) (TyBasic (mkSpan (mkPtok 26 "int32" 19 4 63) (mkPtok 26 "int32" 19 4 63)) (mkBasicType (mkSpan (mkPtok 26 "int32" 19 4 63) (mkPtok 26 "int32" 19 4 63)) (mkPtok 26 "int32" 19 4 63))) (mkPtok 42 "len" 19 10 64) None (mkPtok 40 "," 19 14 65))))] (mkPtok 3 "}" 19 16 66))); (DPacket (mkPacketDef (mkSpan (mkPtok 35 "packet" 19 18 67) (mkPtok 3 "}" 41 24 131)) None (mkPtok 35 "packet" 19 18 67) (mkPtok 42 "uint8x" 19 25 68) (mkPtok 2 "{" 20 0 69) [(mkFieldWithAttr (mkSpan (mkPtok 9 "@tag(" 21 4 70) (mkPtok 40 "," 21 46 78)) [(FATag (mkSpan (mkPtok 9 "@tag(" 21 4 70) (mkPtok 6 ")" 21 11 72)) (mkTagAttr (mkSpan (mkPtok 9 "@tag(" 21 4 70) (mkPtok 6 ")" 21 11 72)) (mkPtok 9 "@tag(" 21 4 70) (mkPtok 30 "7" 21 9 71) (mkPtok 6 ")" 21 11 72))); (FACalculatedFrom (mkSpan (mkPtok 5 "@calculatedFrom(" 21 13 73) (mkPtok 6 ")" 21 34 75)) (mkCalculatedFrom (mkSpan (mkPtok 5 "@calculatedFrom(" 21 13 73) (mkPtok 6 ")" 21 34 75)) (mkPtok 5 "@calculatedFrom(" 21 13 73) (mkPtok 31 """\n""" 21 29 74) (mkPtok 6 ")" 21 34 75)))] (MetaField (mkSpan (mkPtok 15 "string" 21 36 76) (mkPtok 40 "," 21 46 78)) None (mkMetaDecl (mkSpan (mkPtok 15 "string" 21 36 76) (mkPtok 40 "," 21 46 78)) (TyDynamic (mkSpan (mkPtok 15 "string" 21 36 76) (mkPtok 15 "string" 21 36 76)) (mkDynamicString (mkSpan (mkPtok 15 "string" 21 36 76) (mkPtok 15 "string" 21 36 76)) (mkPtok 15 "string" 21 36 76))) (mkPtok 42 "_x" 21 43 77) None (mkPtok 40 "," 21 46 78)))); (mkFieldWithAttr (mkSpan (mkPtok 5 "@calculatedFrom(" 21 48 79) (mkPtok 40 "," 28 0 90)) [(FACalculatedFrom (mkSpan (mkPtok 5 "@calculatedFrom(" 21 48 79) (mkPtok 6 ")" 23 4 82)) (mkCalculatedFrom (mkSpan (mkPtok 5 "@calculatedFrom(" 21 48 79) (mkPtok 6 ")" 23 4 82)) (mkPtok 5 "@calculatedFrom(" 21 48 79) (mkPtok 31 """`tick`""" 21 65 80) (mkPtok 6 ")" 23 4 82))); (FAPadding (mkSpan (mkPtok 32 "@leftPad" 23 5 83) (mkPtok 6 ")" 26 0 87)) (mkPaddingAttr (mkSpan (mkPtok 32 "@leftPad" 23 5 83) (mkPtok 6 ")" 26 0 87)) (mkPtok 32 "@leftPad" 23 5 83) (mkPtok 8 "(" 25 4 85) (Some (mkPtok 33 "' '" 25 5 86)) (mkPtok 6 ")" 26 0 87)))] (ObjectField (mkSpan (mkPtok 42 "zchar" 27 0 89) (mkPtok 40 "," 28 0 90)) None (mkPtok 42 "zchar" 27 0 89) None None (mkPtok 40 "," 28 0 90))); (mkFieldWithAttr (mkSpan (mkPtok 7 "@lengthOf(" 29 0 92) (mkPtok 40 "," 29 21 96)) [(FALengthOf (mkSpan (mkPtok 7 "@lengthOf(" 29 0 92) (mkPtok 6 ")" 29 17 94)) (mkLengthOf (mkSpan (mkPtok 7 "@lengthOf(" 29 0 92) (mkPtok 6 ")" 29 17 94)) (mkPtok 7 "@lengthOf(" 29 0 92) (mkPtok 42 "x_y_z" 29 11 93) (mkPtok 6 ")" 29 17 94)))] (ObjectField (mkSpan (mkPtok 42 "o" 29 19 95) (mkPtok 40 "," 29 21 96)) None (mkPtok 42 "o" 29 19 95) None None (mkPtok 40 "," 29 21 96))); (mkFieldWithAttr (mkSpan (mkPtok 42 "i64_" 29 23 97) (mkPtok 40 "," 29 33 99)) [] (ObjectField (mkSpan (mkPtok 42 "i64_" 29 23 97) (mkPtok 40 "," 29 33 99)) None (mkPtok 42 "i64_" 29 23 97) (Some (mkPtok 42 "pack" 29 28 98)) None (mkPtok 40 "," 29 33 99))); (mkFieldWithAttr (mkSpan (mkPtok 32 "@leftPad" 30 0 100) (mkPtok 40 "," 33 4 109)) [(FAPadding (mkSpan (mkPtok 32 "@leftPad" 30 0 100) (mkPtok 6 ")" 31 0 102)) (mkPaddingAttr (mkSpan (mkPtok 32 "@leftPad" 30 0 100) (mkPtok 6 ")" 31 0 102)) (mkPtok 32 "@leftPad" 30 0 100) (mkPtok 8 "(" 30 9 101) None (mkPtok 6 ")" 31 0 102)))] (MetaField (mkSpan (mkPtok 36 "repeat" 32 4 103) (mkPtok 40 "," 33 4 109)) (Some (mkPtok 36 "repeat" 32 4 103)) (mkMetaDecl (mkSpan (mkPtok 14 "zchar[" 32 11 104) (mkPtok 40 "," 33 4 109)) (TyFixed (mkSpan (mkPtok 14 "zchar[" 32 11 104) (mkPtok 13 "]" 33 0 107)) (mkFixedString (mkSpan (mkPtok 14 "zchar[" 32 11 104) (mkPtok 13 "]" 33 0 107)) (mkPtok 14 "zchar[" 32 11 104) (mkPtok 30 "255" 32 18 105) (mkPtok 13 "]" 33 0 107))) (mkPtok 42 "u" 33 2 108) None (mkPtok 40 "," 33 4 109)))); (mkFieldWithAttr (mkSpan (mkPtok 24 "i8" 33 6 110) (mkPtok 40 "," 37 6 117)) [] (CheckSumField (mkSpan (mkPtok 24 "i8" 33 6 110) (mkPtok 40 "," 37 6 117)) (mkChecksumFieldDecl (mkSpan (mkPtok 24 "i8" 33 6 110) (mkPtok 40 "," 37 6 117)) (Some (TyBasic (mkSpan (mkPtok 24 "i8" 33 6 110) (mkPtok 24 "i8" 33 6 110)) (mkBasicType (mkSpan (mkPtok 24 "i8" 33 6 110) (mkPtok 24 "i8" 33 6 110)) (mkPtok 24 "i8" 33 6 110)))) (mkPtok 42 "chars" 34 4 111) (mkCalculatedFrom (mkSpan (mkPtok 5 "@calculatedFrom(" 34 10 112) (mkPtok 6 ")" 36 10 115)) (mkPtok 5 "@calculatedFrom(" 34 10 112) (mkPtok 31 """a\\""" 36 4 114) (mkPtok 6 ")" 36 10 115)) (Some (mkPtok 43 (string_of_bytes [96; 99; 114; 108; 102; 13; 10; 108; 105; 110; 101; 96]%N) 36 12 116)) (mkPtok 40 "," 37 6 117)))); (mkFieldWithAttr (mkSpan (mkPtok 19 "char" 38 0 118) (mkPtok 40 "," 39 3 122)) [] (MetaField (mkSpan (mkPtok 19 "char" 38 0 118) (mkPtok 40 "," 39 3 122)) None (mkMetaDecl (mkSpan (mkPtok 19 "char" 38 0 118) (mkPtok 40 "," 39 3 122)) (TyBasic (mkSpan (mkPtok 19 "char" 38 0 118) (mkPtok 19 "char" 38 0 118)) (mkBasicType (mkSpan (mkPtok 19 "char" 38 0 118) (mkPtok 19 "char" 38 0 118)) (mkPtok 19 "char" 38 0 118))) (mkPtok 42 "u128" 38 5 119) (Some (mkPtok 43 "``" 39 0 121)) (mkPtok 40 "," 39 3 122)))); (mkFieldWithAttr (mkSpan (mkPtok 5 "@calculatedFrom(" 40 0 123) (mkPtok 40 "," 41 23 130)) [(FACalculatedFrom (mkSpan (mkPtok 5 "@calculatedFrom(" 40 0 123) (mkPtok 6 ")" 41 5 126)) (mkCalculatedFrom (mkSpan (mkPtok 5 "@calculatedFrom(" 40 0 123) (mkPtok 6 ")" 41 5 126)) (mkPtok 5 "@calculatedFrom(" 40 0 123) (mkPtok 31 """\n""" 41 0 125) (mkPtok 6 ")" 41 5 126)))] (ObjectField (mkSpan (mkPtok 36 "repeat" 41 7 127) (mkPtok 40 "," 41 23 130)) (Some (mkPtok 36 "repeat" 41 7 127)) (mkPtok 42 "tag" 41 14 128) (Some (mkPtok 42 "body" 41 18 129)) None (mkPtok 40 "," 41 23 130)))] (mkPtok 3 "}" 41 24 131))); (DOption (mkOptionDef (mkSpan (mkPtok 1 "options" 43 4 133) (mkPtok 3 "}" 44 40 141)) (mkPtok 1 "options" 43 4 133) (mkPtok 2 "{" 43 11 134) [(mkOptionDecl (mkSpan (mkPtok 42 "calculatedFrom" 44 4 135) (mkPtok 27 "i64" 44 22 137)) (mkPtok 42 "calculatedFrom" 44 4 135) (mkPtok 4 "=" 44 19 136) (VType (mkSpan (mkPtok 27 "i64" 44 22 137) (mkPtok 27 "i64" 44 22 137)) (TyBasic (mkSpan (mkPtok 27 "i64" 44 22 137) (mkPtok 27 "i64" 44 22 137)) (mkBasicType (mkSpan (mkPtok 27 "i64" 44 22 137) (mkPtok 27 "i64" 44 22 137)) (mkPtok 27 "i64" 44 22 137)))) None); (mkOptionDecl (mkSpan (mkPtok 42 "pack" 44 26 138) (mkPtok 21 "uint16" 44 33 140)) (mkPtok 42 "pack" 44 26 138) (mkPtok 4 "=" 44 31 139) (VType (mkSpan (mkPtok 21 "uint16" 44 33 140) (mkPtok 21 "uint16" 44 33 140)) (TyBasic (mkSpan (mkPtok 21 "uint16" 44 33 140) (mkPtok 21 "uint16" 44 33 140)) (mkBasicType (mkSpan (mkPtok 21 "uint16" 44 33 140) (mkPtok 21 "uint16" 44 33 140)) (mkPtok 21 "uint16" 44 33 140)))) None)] (mkPtok 3 "}" 44 40 141)))])).
+Eval vm_compute in ("<<<M107>>>" ++ check (runes_of_ascii "
+options { options1 =
+i64 matchKey// `tick` ""quote"" 'q'
+= true ;
+matchKey// c
+=
+    i16 ;
+    u8x =
+    ""{,}""; }
+")).
+Eval vm_compute in ("<<<M117>>>" ++ check (runes_of_ascii "MetaData tag{
+} MetaData tag
+    { options1 metadata// " ++ [128512]%N ++ runes_of_ascii " emoji
+,
+}
+    root packet Header { @lengthOf( body
+) len
+msg_type
+    , repeat	string
+    //x
+    int
+`{ , }`, u8
+    rootA @lengthOf(
+Z9_ )  `" ++ [233]%N ++ runes_of_ascii "` , }
+")).
+Eval vm_compute in ("<<<M127>>>" ++ check (runes_of_ascii "root packet u{ zchar[ 00] body , @lengthOf( o ) match
+u as u{
+    ""\" ++ [233]%N ++ runes_of_ascii """ : Z9_
+    //x
+    [/// triple
+65535 ,
+255 , ""x y"" ] // a // b
+:
+chars,
+0123456789:float , } , }packet x_y_z {
+zchar[ 3 ]u
+    , @tag(
+    10 ) zchar[ 4294967296 ]  body // @lengthOf(
+`tab	here` ,
+@lengthOf(Pad
+// a // b
+// @lengthOf(
+) repeat i64_ crc ,
+repeat
+    u16
+    msg_type,	@rightPad
+// @lengthOf(
+//	t
+(
+) char[]
+/// triple
+// @lengthOf(
+float //	t
+, @rightPad
+( )@leftPad
+( )repeat char[ 4294967296
+]options1 , repeat f64 _x`` , u64 string_//
+,	} root packet packetx
+{int32 i8i8 @calculatedFrom( ""\" ++ [233]%N ++ runes_of_ascii """
+// a // b
+// trailing space 
+)
+    `100% of %d`
+// " ++ [128512]%N ++ runes_of_ascii " emoji
+// " ++ [128512]%N ++ runes_of_ascii " emoji
+, @tag( 1 ) @lengthOf( // " ++ [128512]%N ++ runes_of_ascii " emoji
+i64_ )
+    @calculatedFrom( ""x y""
+    )
+// `tick` ""quote"" 'q'
+//	t
+char[
+    0123456789
+    ]
+rootA @calculatedFrom(
+""// no comment"" )
+    `" ++ [28040; 24687; 31867; 22411]%N ++ runes_of_ascii "` ,u32
+T @lengthOf(x )
+    `it's`, char MetaDataX/// triple
+, } packet
+/// triple
+// `tick` ""quote"" 'q'
+Header {@calculatedFrom(
+""`tick`""  )
+    @tag( 3) x crc,
+    @calculatedFrom( ""it's"" )
+u16 Z9_
+`" ++ [28040; 24687; 31867; 22411]%N ++ runes_of_ascii "` ,	@calculatedFrom(
+""`tick`"")
+As , // c
+@leftPad //	t
+( )
+    // trailing space 
+    u128  @calculatedFrom(
+    """ ++ [28040; 24687]%N ++ runes_of_ascii """ ) , @calculatedFrom(""// no comment""// trailing space 
+)
+repeat
+As { body {
+repeat f32a
+{ match Z9_ as
+BodyLength
+    { ""it's"" : Logon }
+//x
+//
+,
+    char[ 65535 ] pack,
+Packet @calculatedFrom( // `tick` ""quote"" 'q'
+""a\\"") , char[] _x @calculatedFrom( """") , } , } ,} ,
+    @tag(
+65535
+    )
+@calculatedFrom(//
+""abc"" )@calculatedFrom( ""`tick`"" )
+    BodyLength {	crc matchKey,	asx ,
+    match /// triple
+repeatCount //	t
+as
+int{
+""1""
+:Logon
+,
+},
+asx
+    {repeat
+_x ,
+x Foo
+`" ++ [233]%N ++ runes_of_ascii "` ,
+repeat// c
+zchar[42 ]A
+    , u16
+lengthOf `100% of %d`
+, }
+    // `tick` ""quote"" 'q'
+    ,
+    // a // b
+    } ,
+@rightPad (' ' )
+    match  Z9_ as i64_ {
+    //	t
+    1 :
+// 50% %s
+// trailing space 
+Header ,	""\n"": lengthOf  , } , string_ {  repeat char[ 255 // c
+] Pad
+    , }  ,
+    float32
+    leftPad @calculatedFrom( ""a\\"" )  , }
+packet
+calculatedFrom // c
+{}
+")).
+Eval vm_compute in ("<<<M137>>>" ++ check (runes_of_ascii "root
+packet // packet A { u8 x, }
+MetaDataX	{
+    match msg_type as _x{ ""CRC32"": pack //
+, } ,@calculatedFrom( ""1""	) repeat
+charz { chars{ u64 tag `u8 x,` ,
+    repeat
+    a1
+{match
+charz // " ++ [128512]%N ++ runes_of_ascii " emoji
+as Logon { 0 : // " ++ [27880; 37322]%N ++ runes_of_ascii "
+Packet , 4294967296 :
+    f32a[""\" ++ [233]%N ++ runes_of_ascii """ , 4294967296 , ""x y"" , 65535
+,  """ ++ [128512]%N ++ runes_of_ascii """, 7 ]:
+    trueish , 007:Foo, ""packet""
+: rootA , } ,
+falsey
+    @calculatedFrom(""1""
+    // `tick` ""quote"" 'q'
+    )
+, } , // `tick` ""quote"" 'q'
+char[]len  ,} ,match trueish as crc { 42
+: chars } , int64 MetaDataX@calculatedFrom( ""`tick`"" )	`100% of %d` , } ,
+}
+")).
+Eval vm_compute in ("<<<M147>>>" ++ check (runes_of_ascii "MetaData
+Logon {string //x
+a1`{ , }`
+    , string
+a1,Logon charz,zchar[ 42 ]Z9_ ,
+// packet A { u8 x, }
+//
+} options { packetx =
+    00; tag = zchar[
+    0123456789]
+    i64_	=
+    ""\" ++ [233]%N ++ runes_of_ascii """ As
+    =""CRC32"" ;body
+=
+255 ;}// 50% %s
+MetaData Packet { u64
+    // 50% %s
+    x
+, zchar[ 7 ] matchKey
+`" ++ [28040; 24687; 31867; 22411]%N ++ runes_of_ascii "` ,
+    string_
+    As ,	} // @lengthOf(")).
+Eval vm_compute in ("<<<M157>>>" ++ check (runes_of_ascii "packet calculatedFrom {	char matchKey, zchar[
+//	t
+// `tick` ""quote"" 'q'
+7]  x_y_z `// not a comment`
+    , @leftPad
+( ' ' ) // packet A { u8 x, }
+@rightPad // trailing space 
+(
+    )repeat  Header	`` ,
+body  { repeat i32
+BodyLength, } , match Foo as//x
+pack {
+    0
+: _x// @lengthOf(
+,
+    }
+    , int64
+Foo
+`100% of %d`
+    // `tick` ""quote"" 'q'
+    ,
+} packet asx{}options
+{ o =007; } packet A
+{ }	options { Logon = true}
+")).
+Eval vm_compute in ("<<<M167>>>" ++ check (runes_of_ascii "// " ++ [128512]%N ++ runes_of_ascii " emoji
+root packet	uint8x
+{ zchar[ 007 ] trueish `doc` , @calculatedFrom(
+""" ++ [28040; 24687]%N ++ runes_of_ascii """)body Pad
+, }
+packet i64_
+// packet A { u8 x, }
+// packet A { u8 x, }
+{ int32
+i8i8 `doc` ,// a // b
+}
+    // 50% %s
+    options { f32a = ""// no comment"" ;
+    crc
+= ' '/// triple
+As // " ++ [128512]%N ++ runes_of_ascii " emoji
+='\x00' Packet
+    =
+u64; Logon
+    =false; } packet Logon {@lengthOf( zchar
+    ) zchar[ 007 ]x // 50% %s
+,
+@rightPad
+( ' '
+) match matchKey as zchar { 0: f32a
+,[ ""x y""
+    // " ++ [27880; 37322]%N ++ runes_of_ascii "
+    ,
+""" ++ [233]%N ++ runes_of_ascii "t" ++ [233]%N ++ runes_of_ascii """ ,42 // packet A { u8 x, }
+, ""it's"" , 00
+    // c
+    ,7
+,	""" ++ [128512]%N ++ runes_of_ascii """, """ ++ [233]%N ++ runes_of_ascii "t" ++ [233]%N ++ runes_of_ascii """ ] :
+    falsey [4294967296 ]// @lengthOf(
+:
+    pack,  [ ""a	b"" , 42
+,	10
+// " ++ [27880; 37322]%N ++ runes_of_ascii "
+// `tick` ""quote"" 'q'
+, ""abc"", ""{,}""  , ""{,}"" ]: //	t
+f32a[ 00 ,
+// packet A { u8 x, }
+// @lengthOf(
+""// no comment"",0
+,
+    //	t
+    10	, ""packet""
+    ,
+    //
+    ""x y"" ] :packetx
+, 007 : float  } ,
+// @lengthOf(
+// packet A { u8 x, }
+@tag( 10 ) u32
+zchar @lengthOf(
+u8x )
+    , @lengthOf(
+    // c
+    tag) zchar[ 7
+    ]
+_x ,
+@tag( 65535 ) tag {//
+uint8x repeatCount , match packetx
+as zchar {
+    [
+""" ++ [128512]%N ++ runes_of_ascii """ , // " ++ [27880; 37322]%N ++ runes_of_ascii "
+007
+    // `tick` ""quote"" 'q'
+    ] :leftPad 7
+    : zchar
+,
+""packet"": lengthOf },}
+// trailing space 
+// @lengthOf(
+, zchar[ 3 ] pack
+@lengthOf(
+T  ) , repeat A charz
+, repeat
+    // " ++ [128512]%N ++ runes_of_ascii " emoji
+    charz `100% of %d` ,	@tag( 007)@tag(	00 )@calculatedFrom(
+    ""abc"") repeat
+u64 repeatCount`doc` , // `tick` ""quote"" 'q'
+stringy  `{ , }` , } packet	crc
+    { i16
+metadata // " ++ [128512]%N ++ runes_of_ascii " emoji
+, match
+    string_ as  float{
+    42: rootA
+    , 65535 :
+roots 00 : As,
+    [//x
+""// no comment""
+    /// triple
+    ,
+    0123456789 ] : // " ++ [128512]%N ++ runes_of_ascii " emoji
+options1, // a // b
+00: BodyLength, }, repeat x{
+repeat
+o i8i8
+// packet A { u8 x, }
+// @lengthOf(
+`" ++ [233]%N ++ runes_of_ascii "`
+    // a // b
+    ,} , match string_
+as
+    Z9_ { ""abc"" : a1, [ 42
+, 255//	t
+,
+    3 , ""a	b"" , ""\" ++ [233]%N ++ runes_of_ascii """ ]
+: /// triple
+MetaDataX, 3 :
+    //x
+    matchKey ,
+[ // a // b
+""\" ++ [233]%N ++ runes_of_ascii """
+    ,	1,
+""abc"" , 255 ,	255]:
+string_ ,} ,
+Foo
+{ crc {	char[] stringy @calculatedFrom( ""\" ++ [233]%N ++ runes_of_ascii """
+    // 50% %s
+    )
+    // `tick` ""quote"" 'q'
+    ,
+repeat a1 { char[ 42 ]
+    calculatedFrom @calculatedFrom( ""a\\""),
+}
+    ,float64 Packet `crlf
+line`
+, }, As { zchar @calculatedFrom( ""a\\"" ) , }, } //	t
+, int16 string_ //x
+@calculatedFrom( ""// no comment"" ) `" ++ [28040; 24687; 31867; 22411]%N ++ runes_of_ascii "` , repeat x `
+`
+, //
+zchar[ 65535	] i64_ ,
+    } 	 ")).
+Eval vm_compute in ("<<<T167>>>" ++ terms [mkTok 44 (string_of_bytes [47; 47; 32; 240; 159; 152; 128; 32; 101; 109; 111; 106; 105]%N) 1 0 true; mkTok 34 "root" 2 0 false; mkTok 35 "packet" 2 5 false; mkTok 42 "uint8x" 2 12 false; mkTok 2 "{" 3 0 false; mkTok 14 "zchar[" 3 2 false; mkTok 30 "007" 3 9 false; mkTok 13 "]" 3 13 false; mkTok 42 "trueish" 3 15 false; mkTok 43 "`doc`" 3 23 false; mkTok 40 "," 3 29 false; mkTok 5 "@calculatedFrom(" 3 31 false; mkTok 31 (string_of_bytes [34; 230; 182; 136; 230; 129; 175; 34]%N) 4 0 false; mkTok 6 ")" 4 4 false; mkTok 42 "body" 4 5 false; mkTok 42 "Pad" 4 10 false; mkTok 40 "," 5 0 false; mkTok 3 "}" 5 2 false; mkTok 35 "packet" 6 0 false; mkTok 42 "i64_" 6 7 false; mkTok 44 "// packet A { u8 x, }" 7 0 true; mkTok 44 "// packet A { u8 x, }" 8 0 true; mkTok 2 "{" 9 0 false; mkTok 26 "int32" 9 2 false; mkTok 42 "i8i8" 10 0 false; mkTok 43 "`doc`" 10 5 false; mkTok 40 "," 10 11 false; mkTok 44 "// a // b" 10 12 true; mkTok 3 "}" 11 0 false; mkTok 44 "// 50% %s" 12 4 true; mkTok 1 "options" 13 4 false; mkTok 2 "{" 13 12 false; mkTok 42 "f32a" 13 14 false; mkTok 4 "=" 13 19 false; mkTok 31 """// no comment""" 13 21 false; mkTok 41 ";" 13 37 false; mkTok 42 "crc" 14 4 false; mkTok 4 "=" 15 0 false; mkTok 33 "' '" 15 2 false; mkTok 44 "/// triple" 15 5 true; mkTok 42 "As" 16 0 false; mkTok 44 (string_of_bytes [47; 47; 32; 240; 159; 152; 128; 32; 101; 109; 111; 106; 105]%N) 16 3 true; mkTok 4 "=" 17 0 false; mkTok 33 "'\x00'" 17 1 false; mkTok 42 "Packet" 17 8 false; mkTok 4 "=" 18 4 false; mkTok 23 "u64" 19 0 false; mkTok 41 ";" 19 3 false; mkTok 42 "Logon" 19 5 false; mkTok 4 "=" 20 4 false; mkTok 11 "false" 20 5 false; mkTok 41 ";" 20 10 false; mkTok 3 "}" 20 12 false; mkTok 35 "packet" 20 14 false; mkTok 42 "Logon" 20 21 false; mkTok 2 "{" 20 27 false; mkTok 7 "@lengthOf(" 20 28 false; mkTok 42 "zchar" 20 39 false; mkTok 6 ")" 21 4 false; mkTok 14 "zchar[" 21 6 false; mkTok 30 "007" 21 13 false; mkTok 13 "]" 21 17 false; mkTok 42 "x" 21 18 false; mkTok 44 "// 50% %s" 21 20 true; mkTok 40 "," 22 0 false; mkTok 32 "@rightPad" 23 0 false; mkTok 8 "(" 24 0 false; mkTok 33 "' '" 24 2 false; mkTok 6 ")" 25 0 false; mkTok 38 "match" 25 2 false; mkTok 42 "matchKey" 25 8 false; mkTok 17 "as" 25 17 false; mkTok 42 "zchar" 25 20 false; mkTok 2 "{" 25 26 false; mkTok 30 "0" 25 28 false; mkTok 39 ":" 25 29 false; mkTok 42 "f32a" 25 31 false; mkTok 40 "," 26 0 false; mkTok 18 "[" 26 1 false; mkTok 31 """x y""" 26 3 false; mkTok 44 (string_of_bytes [47; 47; 32; 230; 179; 168; 233; 135; 138]%N) 27 4 true; mkTok 40 "," 28 4 false; mkTok 31 (string_of_bytes [34; 195; 169; 116; 195; 169; 34]%N) 29 0 false; mkTok 40 "," 29 6 false; mkTok 30 "42" 29 7 false; mkTok 44 "// packet A { u8 x, }" 29 10 true; mkTok 40 "," 30 0 false; mkTok 31 """it's""" 30 2 false; mkTok 40 "," 30 9 false; mkTok 30 "00" 30 11 false; mkTok 44 "// c" 31 4 true; mkTok 40 "," 32 4 false; mkTok 30 "7" 32 5 false; mkTok 40 "," 33 0 false; mkTok 31 (string_of_bytes [34; 240; 159; 152; 128; 34]%N) 33 2 false; mkTok 40 "," 33 5 false; mkTok 31 (string_of_bytes [34; 195; 169; 116; 195; 169; 34]%N) 33 7 false; mkTok 13 "]" 33 13 false; mkTok 39 ":" 33 15 false; mkTok 42 "falsey" 34 4 false; mkTok 18 "[" 34 11 false; mkTok 30 "4294967296" 34 12 false; mkTok 13 "]" 34 23 false; mkTok 44 "// @lengthOf(" 34 24 true; mkTok 39 ":" 35 0 false; mkTok 42 "pack" 36 4 false; mkTok 40 "," 36 8 false; mkTok 18 "[" 36 11 false; mkTok 31 (string_of_bytes [34; 97; 9; 98; 34]%N) 36 13 false; mkTok 40 "," 36 19 false; mkTok 30 "42" 36 21 false; mkTok 40 "," 37 0 false; mkTok 30 "10" 37 2 false; mkTok 44 (string_of_bytes [47; 47; 32; 230; 179; 168; 233; 135; 138]%N) 38 0 true; mkTok 44 "// `tick` ""quote"" 'q'" 39 0 true; mkTok 40 "," 40 0 false; mkTok 31 """abc""" 40 2 false; mkTok 40 "," 40 7 false; mkTok 31 """{,}""" 40 9 false; mkTok 40 "," 40 16 false; mkTok 31 """{,}""" 40 18 false; mkTok 13 "]" 40 24 false; mkTok 39 ":" 40 25 false; mkTok 44 (string_of_bytes [47; 47; 9; 116]%N) 40 27 true; mkTok 42 "f32a" 41 0 false; mkTok 18 "[" 41 4 false; mkTok 30 "00" 41 6 false; mkTok 40 "," 41 9 false; mkTok 44 "// packet A { u8 x, }" 42 0 true; mkTok 44 "// @lengthOf(" 43 0 true; mkTok 31 """// no comment""" 44 0 false; mkTok 40 "," 44 15 false; mkTok 30 "0" 44 16 false; mkTok 40 "," 45 0 false; mkTok 44 (string_of_bytes [47; 47; 9; 116]%N) 46 4 true; mkTok 30 "10" 47 4 false; mkTok 40 "," 47 7 false; mkTok 31 """packet""" 47 9 false; mkTok 40 "," 48 4 false; mkTok 44 "//" 49 4 true; mkTok 31 """x y""" 50 4 false; mkTok 13 "]" 50 10 false; mkTok 39 ":" 50 12 false; mkTok 42 "packetx" 50 13 false; mkTok 40 "," 51 0 false; mkTok 30 "007" 51 2 false; mkTok 39 ":" 51 6 false; mkTok 42 "float" 51 8 false; mkTok 3 "}" 51 15 false; mkTok 40 "," 51 17 false; mkTok 44 "// @lengthOf(" 52 0 true; mkTok 44 "// packet A { u8 x, }" 53 0 true; mkTok 9 "@tag(" 54 0 false; mkTok 30 "10" 54 6 false; mkTok 6 ")" 54 9 false; mkTok 22 "u32" 54 11 false; mkTok 42 "zchar" 55 0 false; mkTok 7 "@lengthOf(" 55 6 false; mkTok 42 "u8x" 56 0 false; mkTok 6 ")" 56 4 false; mkTok 40 "," 57 4 false; mkTok 7 "@lengthOf(" 57 6 false; mkTok 44 "// c" 58 4 true; mkTok 42 "tag" 59 4 false; mkTok 6 ")" 59 7 false; mkTok 14 "zchar[" 59 9 false; mkTok 30 "7" 59 16 false; mkTok 13 "]" 60 4 false; mkTok 42 "_x" 61 0 false; mkTok 40 "," 61 3 false; mkTok 9 "@tag(" 62 0 false; mkTok 30 "65535" 62 6 false; mkTok 6 ")" 62 12 false; mkTok 42 "tag" 62 14 false; mkTok 2 "{" 62 18 false; mkTok 44 "//" 62 19 true; mkTok 42 "uint8x" 63 0 false; mkTok 42 "repeatCount" 63 7 false; mkTok 40 "," 63 19 false; mkTok 38 "match" 63 21 false; mkTok 42 "packetx" 63 27 false; mkTok 17 "as" 64 0 false; mkTok 42 "zchar" 64 3 false; mkTok 2 "{" 64 9 false; mkTok 18 "[" 65 4 false; mkTok 31 (string_of_bytes [34; 240; 159; 152; 128; 34]%N) 66 0 false; mkTok 40 "," 66 4 false; mkTok 44 (string_of_bytes [47; 47; 32; 230; 179; 168; 233; 135; 138]%N) 66 6 true; mkTok 30 "007" 67 0 false; mkTok 44 "// `tick` ""quote"" 'q'" 68 4 true; mkTok 13 "]" 69 4 false; mkTok 39 ":" 69 6 false; mkTok 42 "leftPad" 69 7 false; mkTok 30 "7" 69 15 false; mkTok 39 ":" 70 4 false; mkTok 42 "zchar" 70 6 false; mkTok 40 "," 71 0 false; mkTok 31 """packet""" 72 0 false; mkTok 39 ":" 72 8 false; mkTok 42 "lengthOf" 72 10 false; mkTok 3 "}" 72 19 false; mkTok 40 "," 72 20 false; mkTok 3 "}" 72 21 false; mkTok 44 "// trailing space " 73 0 true; mkTok 44 "// @lengthOf(" 74 0 true; mkTok 40 "," 75 0 false; mkTok 14 "zchar[" 75 2 false; mkTok 30 "3" 75 9 false; mkTok 13 "]" 75 11 false; mkTok 42 "pack" 75 13 false; mkTok 7 "@lengthOf(" 76 0 false; mkTok 42 "T" 77 0 false; mkTok 6 ")" 77 3 false; mkTok 40 "," 77 5 false; mkTok 36 "repeat" 77 7 false; mkTok 42 "A" 77 14 false; mkTok 42 "charz" 77 16 false; mkTok 40 "," 78 0 false; mkTok 36 "repeat" 78 2 false; mkTok 44 (string_of_bytes [47; 47; 32; 240; 159; 152; 128; 32; 101; 109; 111; 106; 105]%N) 79 4 true; mkTok 42 "charz" 80 4 false; mkTok 43 "`100% of %d`" 80 10 false; mkTok 40 "," 80 23 false; mkTok 9 "@tag(" 80 25 false; mkTok 30 "007" 80 31 false; mkTok 6 ")" 80 34 false; mkTok 9 "@tag(" 80 35 false; mkTok 30 "00" 80 41 false; mkTok 6 ")" 80 44 false; mkTok 5 "@calculatedFrom(" 80 45 false; mkTok 31 """abc""" 81 4 false; mkTok 6 ")" 81 9 false; mkTok 36 "repeat" 81 11 false; mkTok 23 "u64" 82 0 false; mkTok 42 "repeatCount" 82 4 false; mkTok 43 "`doc`" 82 15 false; mkTok 40 "," 82 21 false; mkTok 44 "// `tick` ""quote"" 'q'" 82 23 true; mkTok 42 "stringy" 83 0 false; mkTok 43 "`{ , }`" 83 9 false; mkTok 40 "," 83 17 false; mkTok 3 "}" 83 19 false; mkTok 35 "packet" 83 21 false; mkTok 42 "crc" 83 28 false; mkTok 2 "{" 84 4 false; mkTok 25 "i16" 84 6 false; mkTok 42 "metadata" 85 0 false; mkTok 44 (string_of_bytes [47; 47; 32; 240; 159; 152; 128; 32; 101; 109; 111; 106; 105]%N) 85 9 true; mkTok 40 "," 86 0 false; mkTok 38 "match" 86 2 false; mkTok 42 "string_" 87 4 false; mkTok 17 "as" 87 12 false; mkTok 42 "float" 87 16 false; mkTok 2 "{" 87 21 false; mkTok 30 "42" 88 4 false; mkTok 39 ":" 88 6 false; mkTok 42 "rootA" 88 8 false; mkTok 40 "," 89 4 false; mkTok 30 "65535" 89 6 false; mkTok 39 ":" 89 12 false; mkTok 42 "roots" 90 0 false; mkTok 30 "00" 90 6 false; mkTok 39 ":" 90 9 false; mkTok 42 "As" 90 11 false; mkTok 40 "," 90 13 false; mkTok 18 "[" 91 4 false; mkTok 44 "//x" 91 5 true; mkTok 31 """// no comment""" 92 0 false; mkTok 44 "/// triple" 93 4 true; mkTok 40 "," 94 4 false; mkTok 30 "0123456789" 95 4 false; mkTok 13 "]" 95 15 false; mkTok 39 ":" 95 17 false; mkTok 44 (string_of_bytes [47; 47; 32; 240; 159; 152; 128; 32; 101; 109; 111; 106; 105]%N) 95 19 true; mkTok 42 "options1" 96 0 false; mkTok 40 "," 96 8 false; mkTok 44 "// a // b" 96 10 true; mkTok 30 "00" 97 0 false; mkTok 39 ":" 97 2 false; mkTok 42 "BodyLength" 97 4 false; mkTok 40 "," 97 14 false; mkTok 3 "}" 97 16 false; mkTok 40 "," 97 17 false; mkTok 36 "repeat" 97 19 false; mkTok 42 "x" 97 26 false; mkTok 2 "{" 97 27 false; mkTok 36 "repeat" 98 0 false; mkTok 42 "o" 99 0 false; mkTok 42 "i8i8" 99 2 false; mkTok 44 "// packet A { u8 x, }" 100 0 true; mkTok 44 "// @lengthOf(" 101 0 true; mkTok 43 (string_of_bytes [96; 195; 169; 96]%N) 102 0 false; mkTok 44 "// a // b" 103 4 true; mkTok 40 "," 104 4 false; mkTok 3 "}" 104 5 false; mkTok 40 "," 104 7 false; mkTok 38 "match" 104 9 false; mkTok 42 "string_" 104 15 false; mkTok 17 "as" 105 0 false; mkTok 42 "Z9_" 106 4 false; mkTok 2 "{" 106 8 false; mkTok 31 """abc""" 106 10 false; mkTok 39 ":" 106 16 false; mkTok 42 "a1" 106 18 false; mkTok 40 "," 106 20 false; mkTok 18 "[" 106 22 false; mkTok 30 "42" 106 24 false; mkTok 40 "," 107 0 false; mkTok 30 "255" 107 2 false; mkTok 44 (string_of_bytes [47; 47; 9; 116]%N) 107 5 true; mkTok 40 "," 108 0 false; mkTok 30 "3" 109 4 false; mkTok 40 "," 109 6 false; mkTok 31 (string_of_bytes [34; 97; 9; 98; 34]%N) 109 8 false; mkTok 40 "," 109 14 false; mkTok 31 (string_of_bytes [34; 92; 195; 169; 34]%N) 109 16 false; mkTok 13 "]" 109 21 false; mkTok 39 ":" 110 0 false; mkTok 44 "/// triple" 110 2 true; mkTok 42 "MetaDataX" 111 0 false; mkTok 40 "," 111 9 false; mkTok 30 "3" 111 11 false; mkTok 39 ":" 111 13 false; mkTok 44 "//x" 112 4 true; mkTok 42 "matchKey" 113 4 false; mkTok 40 "," 113 13 false; mkTok 18 "[" 114 0 false; mkTok 44 "// a // b" 114 2 true; mkTok 31 (string_of_bytes [34; 92; 195; 169; 34]%N) 115 0 false; mkTok 40 "," 116 4 false; mkTok 30 "1" 116 6 false; mkTok 40 "," 116 7 false; mkTok 31 """abc""" 117 0 false; mkTok 40 "," 117 6 false; mkTok 30 "255" 117 8 false; mkTok 40 "," 117 12 false; mkTok 30 "255" 117 14 false; mkTok 13 "]" 117 17 false; mkTok 39 ":" 117 18 false; mkTok 42 "string_" 118 0 false; mkTok 40 "," 118 8 false; mkTok 3 "}" 118 9 false; mkTok 40 "," 118 11 false; mkTok 42 "Foo" 119 0 false; mkTok 2 "{" 120 0 false; mkTok 42 "crc" 120 2 false; mkTok 2 "{" 120 6 false; mkTok 16 "char[]" 120 8 false; mkTok 42 "stringy" 120 15 false; mkTok 5 "@calculatedFrom(" 120 23 false; mkTok 31 (string_of_bytes [34; 92; 195; 169; 34]%N) 120 40 false; mkTok 44 "// 50% %s" 121 4 true; mkTok 6 ")" 122 4 false; mkTok 44 "// `tick` ""quote"" 'q'" 123 4 true; mkTok 40 "," 124 4 false; mkTok 36 "repeat" 125 0 false; mkTok 42 "a1" 125 7 false; mkTok 2 "{" 125 10 false; mkTok 12 "char[" 125 12 false; mkTok 30 "42" 125 18 false; mkTok 13 "]" 125 21 false; mkTok 42 "calculatedFrom" 126 4 false; mkTok 5 "@calculatedFrom(" 126 19 false; mkTok 31 """a\\""" 126 36 false; mkTok 6 ")" 126 41 false; mkTok 40 "," 126 42 false; mkTok 3 "}" 127 0 false; mkTok 40 "," 128 4 false; mkTok 29 "float64" 128 5 false; mkTok 42 "Packet" 128 13 false; mkTok 43 (string_of_bytes [96; 99; 114; 108; 102; 13; 10; 108; 105; 110; 101; 96]%N) 128 20 false; mkTok 40 "," 130 0 false; mkTok 3 "}" 130 2 false; mkTok 40 "," 130 3 false; mkTok 42 "As" 130 5 false; mkTok 2 "{" 130 8 false; mkTok 42 "zchar" 130 10 false; mkTok 5 "@calculatedFrom(" 130 16 false; mkTok 31 """a\\""" 130 33 false; mkTok 6 ")" 130 39 false; mkTok 40 "," 130 41 false; mkTok 3 "}" 130 43 false; mkTok 40 "," 130 44 false; mkTok 3 "}" 130 46 false; mkTok 44 (string_of_bytes [47; 47; 9; 116]%N) 130 48 true; mkTok 40 "," 131 0 false; mkTok 25 "int16" 131 2 false; mkTok 42 "string_" 131 8 false; mkTok 44 "//x" 131 16 true; mkTok 5 "@calculatedFrom(" 132 0 false; mkTok 31 """// no comment""" 132 17 false; mkTok 6 ")" 132 33 false; mkTok 43 (string_of_bytes [96; 230; 182; 136; 230; 129; 175; 231; 177; 187; 229; 158; 139; 96]%N) 132 35 false; mkTok 40 "," 132 42 false; mkTok 36 "repeat" 132 44 false; mkTok 42 "x" 132 51 false; mkTok 43 (string_of_bytes [96; 10; 96]%N) 132 53 false; mkTok 40 "," 134 0 false; mkTok 44 "//" 134 2 true; mkTok 14 "zchar[" 135 0 false; mkTok 30 "65535" 135 7 false; mkTok 13 "]" 135 13 false; mkTok 42 "i64_" 135 15 false; mkTok 40 "," 135 20 false; mkTok 3 "}" 136 4 false; mkTok 0 "<EOF>" 136 8 false] (mkPacket (mkPtok 34 "root" 2 0 1) (Some (mkPtok 3 "}" 136 4 404)) [(DPacket (mkPacketDef (mkSpan (mkPtok 34 "root" 2 0 1) (mkPtok 3 "}" 5 2 17)) (Some (mkPtok 34 "root" 2 0 1)) (mkPtok 35 "packet" 2 5 2) (mkPtok 42 "uint8x" 2 12 3) (mkPtok 2 "{" 3 0 4) [(mkFieldWithAttr (mkSpan (mkPtok 14 "zchar[" 3 2 5) (mkPtok 40 "," 3 29 10)) [] (MetaField (mkSpan (mkPtok 14 "zchar[" 3 2 5) (mkPtok 40 "," 3 29 10)) None (mkMetaDecl (mkSpan (mkPtok 14 "zchar[" 3 2 5) (mkPtok 40 "," 3 29 10)) (TyFixed (mkSpan (mkPtok 14 "zchar[" 3 2 5) (mkPtok 13 "]" 3 13 7)) (mkFixedString (mkSpan (mkPtok 14 "zchar[" 3 2 5) (mkPtok 13 "]" 3 13 7)) (mkPtok 14 "zchar[" 3 2 5) (mkPtok 30 "007" 3 9 6) (mkPtok 13 "]" 3 13 7))) (mkPtok 42 "trueish" 3 15 8) (Some (mkPtok 43 "`doc`" 3 23 9)) (mkPtok 40 "," 3 29 10)))); (mkFieldWithAttr (mkSpan (mkPtok 5 "@calculatedFrom(" 3 31 11) (mkPtok 40 "," 5 0 16)) [(FACalculatedFrom (mkSpan (mkPtok 5 "@calculatedFrom(" 3 31 11) (mkPtok 6 ")" 4 4 13)) (mkCalculatedFrom (mkSpan (mkPtok 5 "@calculatedFrom(" 3 31 11) (mkPtok 6 ")" 4 4 13)) (mkPtok 5 "@calculatedFrom(" 3 31 11) (mkPtok 31 (string_of_bytes [34; 230; 182; 136; 230; 129; 175; 34]%N) 4 0 12) (mkPtok 6 ")" 4 4 13)))] (ObjectField (mkSpan (mkPtok 42 "body" 4 5 14) (mkPtok 40 "," 5 0 16)) None (mkPtok 42 "body" 4 5 14) (Some (mkPtok 42 "Pad" 4 10 15)) None (mkPtok 40 "," 5 0 16)))] (mkPtok 3 "}" 5 2 17))); (DPacket (mkPacketDef (mkSpan (mkPtok 35 "packet" 6 0 18) (mkPtok 3 "}" 11 0 28)) None (mkPtok 35 "packet" 6 0 18) (mkPtok 42 "i64_" 6 7 19) (mkPtok 2 "{" 9 0 22) [(mkFieldWithAttr (mkSpan (mkPtok 26 "int32" 9 2 23) (mkPtok 40 "," 10 11 26)) [] (MetaField (mkSpan (mkPtok 26 "int32" 9 2 23) (mkPtok 40 "," 10 11 26)) None (mkMetaDecl (mkSpan (mkPtok 26 "int32" 9 2 23) (mkPtok 40 "," 10 11 26)) (TyBasic (mkSpan (mkPtok 26 "int32" 9 2 23) (mkPtok 26 "int32" 9 2 23)) (mkBasicType (mkSpan (mkPtok 26 "int32" 9 2 23) (mkPtok 26 "int32" 9 2 23)) (mkPtok 26 "int32" 9 2 23))) (mkPtok 42 "i8i8" 10 0 24) (Some (mkPtok 43 "`doc`" 10 5 25)) (mkPtok 40 "," 10 11 26))))] (mkPtok 3 "}" 11 0 28))); (DOption (mkOptionDef (mkSpan (mkPtok 1 "options" 13 4 30) (mkPtok 3 "}" 20 12 52)) (mkPtok 1 "options" 13 4 30) (mkPtok 2 "{" 13 12 31) [(mkOptionDecl (mkSpan (mkPtok 42 "f32a" 13 14 32) (mkPtok 41 ";" 13 37 35)) (mkPtok 42 "f32a" 13 14 32) (mkPtok 4 "=" 13 19 33) (VString (mkSpan (mkPtok 31 """// no comment""" 13 21 34) (mkPtok 31 """// no comment""" 13 21 34)) (mkPtok 31 """// no comment""" 13 21 34)) (Some (mkPtok 41 ";" 13 37 35))); (mkOptionDecl (mkSpan (mkPtok 42 "crc" 14 4 36) (mkPtok 33 "' '" 15 2 38)) (mkPtok 42 "crc" 14 4 36) (mkPtok 4 "=" 15 0 37) (VPaddingChar (mkSpan (mkPtok 33 "' '" 15 2 38) (mkPtok 33 "' '" 15 2 38)) (mkPtok 33 "' '" 15 2 38)) None); (mkOptionDecl (mkSpan (mkPtok 42 "As" 16 0 40) (mkPtok 33 "'\x00'" 17 1 43)) (mkPtok 42 "As" 16 0 40) (mkPtok 4 "=" 17 0 42) (VPaddingChar (mkSpan (mkPtok 33 "'\x00'" 17 1 43) (mkPtok 33 "'\x00'" 17 1 43)) (mkPtok 33 "'\x00'" 17 1 43)) None); (mkOptionDecl (mkSpan (mkPtok 42 "Packet" 17 8 44) (mkPtok 41 ";" 19 3 47)) (mkPtok 42 "Packet" 17 8 44) (mkPtok 4 "=" 18 4 45) (VType (mkSpan (mkPtok 23 "u64" 19 0 46) (mkPtok 23 "u64" 19 0 46)) (TyBasic (mkSpan (mkPtok 23 "u64" 19 0 46) (mkPtok 23 "u64" 19 0 46)) (mkBasicType (mkSpan (mkPtok 23 "u64" 19 0 46) (mkPtok 23 "u64" 19 0 46)) (mkPtok 23 "u64" 19 0 46)))) (Some (mkPtok 41 ";" 19 3 47))); (mkOptionDecl (mkSpan (mkPtok 42 "Logon" 19 5 48) (mkPtok 41 ";" 20 10 51)) (mkPtok 42 "Logon" 19 5 48) (mkPtok 4 "=" 20 4 49) (VFalse (mkSpan (mkPtok 11 "false" 20 5 50) (mkPtok 11 "false" 20 5 50)) (mkPtok 11 "false" 20 5 50)) (Some (mkPtok 41 ";" 20 10 51)))] (mkPtok 3 "}" 20 12 52))); (DPacket (mkPacketDef (mkSpan (mkPtok 35 "packet" 20 14 53) (mkPtok 3 "}" 83 19 241)) None (mkPtok 35 "packet" 20 14 53) (mkPtok 42 "Logon" 20 21 54) (mkPtok 2 "{" 20 27 55) [(mkFieldWithAttr (mkSpan (mkPtok 7 "@lengthOf(" 20 28 56) (mkPtok 40 "," 22 0 64)) [(FALengthOf (mkSpan (mkPtok 7 "@lengthOf(" 20 28 56) (mkPtok 6 ")" 21 4 58)) (mkLengthOf (mkSpan (mkPtok 7 "@lengthOf(" 20 28 56) (mkPtok 6 ")" 21 4 58)) (mkPtok 7 "@lengthOf(" 20 28 56) (mkPtok 42 "zchar" 20 39 57) (mkPtok 6 ")" 21 4 58)))] (MetaField (mkSpan (mkPtok 14 "zchar[" 21 6 59) (mkPtok 40 "," 22 0 64)) None (mkMetaDecl (mkSpan (mkPtok 14 "zchar[" 21 6 59) (mkPtok 40 "," 22 0 64)) (TyFixed (mkSpan (mkPtok 14 "zchar[" 21 6 59) (mkPtok 13 "]" 21 17 61)) (mkFixedString (mkSpan (mkPtok 14 "zchar[" 21 6 59) (mkPtok 13 "]" 21 17 61)) (mkPtok 14 "zchar[" 21 6 59) (mkPtok 30 "007" 21 13 60) (mkPtok 13 "]" 21 17 61))) (mkPtok 42 "x" 21 18 62) None (mkPtok 40 "," 22 0 64)))); (mkFieldWithAttr (mkSpan (mkPtok 32 "@rightPad" 23 0 65) (mkPtok 40 "," 51 17 149)) [(FAPadding (mkSpan (mkPtok 32 "@rightPad" 23 0 65) (mkPtok 6 ")" 25 0 68)) (mkPaddingAttr (mkSpan (mkPtok 32 "@rightPad" 23 0 65) (mkPtok 6 ")" 25 0 68)) (mkPtok 32 "@rightPad" 23 0 65) (mkPtok 8 "(" 24 0 66) (Some (mkPtok 33 "' '" 24 2 67)) (mkPtok 6 ")" 25 0 68)))] (MatchField (mkSpan (mkPtok 38 "match" 25 2 69) (mkPtok 40 "," 51 17 149)) (mkMatchFieldDecl (mkSpan (mkPtok 38 "match" 25 2 69) (mkPtok 3 "}" 51 15 148)) (mkPtok 38 "match" 25 2 69) (mkPtok 42 "matchKey" 25 8 70) (mkPtok 17 "as" 25 17 71) (mkPtok 42 "zchar" 25 20 72) (mkPtok 2 "{" 25 26 73) [(mkMatchPair (mkSpan (mkPtok 30 "0" 25 28 74) (mkPtok 40 "," 26 0 77)) (MKDigits (mkPtok 30 "0" 25 28 74)) (mkPtok 39 ":" 25 29 75) (mkPtok 42 "f32a" 25 31 76) (Some (mkPtok 40 "," 26 0 77))); (mkMatchPair (mkSpan (mkPtok 18 "[" 26 1 78) (mkPtok 42 "falsey" 34 4 99)) (MKList (mkKeyList (mkSpan (mkPtok 18 "[" 26 1 78) (mkPtok 13 "]" 33 13 97)) (mkPtok 18 "[" 26 1 78) (mkPtok 31 """x y""" 26 3 79) [((mkPtok 40 "," 28 4 81), (mkPtok 31 (string_of_bytes [34; 195; 169; 116; 195; 169; 34]%N) 29 0 82)); ((mkPtok 40 "," 29 6 83), (mkPtok 30 "42" 29 7 84)); ((mkPtok 40 "," 30 0 86), (mkPtok 31 """it's""" 30 2 87)); ((mkPtok 40 "," 30 9 88), (mkPtok 30 "00" 30 11 89)); ((mkPtok 40 "," 32 4 91), (mkPtok 30 "7" 32 5 92)); ((mkPtok 40 "," 33 0 93), (mkPtok 31 (string_of_bytes [34; 240; 159; 152; 128; 34]%N) 33 2 94)); ((mkPtok 40 "," 33 5 95), (mkPtok 31 (string_of_bytes [34; 195; 169; 116; 195; 169; 34]%N) 33 7 96))] (mkPtok 13 "]" 33 13 97))) (mkPtok 39 ":" 33 15 98) (mkPtok 42 "falsey" 34 4 99) None); (mkMatchPair (mkSpan (mkPtok 18 "[" 34 11 100) (mkPtok 40 "," 36 8 106)) (MKList (mkKeyList (mkSpan (mkPtok 18 "[" 34 11 100) (mkPtok 13 "]" 34 23 102)) (mkPtok 18 "[" 34 11 100) (mkPtok 30 "4294967296" 34 12 101) [] (mkPtok 13 "]" 34 23 102))) (mkPtok 39 ":" 35 0 104) (mkPtok 42 "pack" 36 4 105) (Some (mkPtok 40 "," 36 8 106))); (mkMatchPair (mkSpan (mkPtok 18 "[" 36 11 107) (mkPtok 42 "f32a" 41 0 124)) (MKList (mkKeyList (mkSpan (mkPtok 18 "[" 36 11 107) (mkPtok 13 "]" 40 24 121)) (mkPtok 18 "[" 36 11 107) (mkPtok 31 (string_of_bytes [34; 97; 9; 98; 34]%N) 36 13 108) [((mkPtok 40 "," 36 19 109), (mkPtok 30 "42" 36 21 110)); ((mkPtok 40 "," 37 0 111), (mkPtok 30 "10" 37 2 112)); ((mkPtok 40 "," 40 0 115), (mkPtok 31 """abc""" 40 2 116)); ((mkPtok 40 "," 40 7 117), (mkPtok 31 """{,}""" 40 9 118)); ((mkPtok 40 "," 40 16 119), (mkPtok 31 """{,}""" 40 18 120))] (mkPtok 13 "]" 40 24 121))) (mkPtok 39 ":" 40 25 122) (mkPtok 42 "f32a" 41 0 124) None); (mkMatchPair (mkSpan (mkPtok 18 "[" 41 4 125) (mkPtok 40 "," 51 0 144)) (MKList (mkKeyList (mkSpan (mkPtok 18 "[" 41 4 125) (mkPtok 13 "]" 50 10 141)) (mkPtok 18 "[" 41 4 125) (mkPtok 30 "00" 41 6 126) [((mkPtok 40 "," 41 9 127), (mkPtok 31 """// no comment""" 44 0 130)); ((mkPtok 40 "," 44 15 131), (mkPtok 30 "0" 44 16 132)); ((mkPtok 40 "," 45 0 133), (mkPtok 30 "10" 47 4 135)); ((mkPtok 40 "," 47 7 136), (mkPtok 31 """packet""" 47 9 137)); ((mkPtok 40 "," 48 4 138), (mkPtok 31 """x y""" 50 4 140))] (mkPtok 13 "]" 50 10 141))) (mkPtok 39 ":" 50 12 142) (mkPtok 42 "packetx" 50 13 143) (Some (mkPtok 40 "," 51 0 144))); (mkMatchPair (mkSpan (mkPtok 30 "007" 51 2 145) (mkPtok 42 "float" 51 8 147)) (MKDigits (mkPtok 30 "007" 51 2 145)) (mkPtok 39 ":" 51 6 146) (mkPtok 42 "float" 51 8 147) None)] (mkPtok 3 "}" 51 15 148)) (mkPtok 40 "," 51 17 149))); (mkFieldWithAttr (mkSpan (mkPtok 9 "@tag(" 54 0 152) (mkPtok 40 "," 57 4 160)) [(FATag (mkSpan (mkPtok 9 "@tag(" 54 0 152) (mkPtok 6 ")" 54 9 154)) (mkTagAttr (mkSpan (mkPtok 9 "@tag(" 54 0 152) (mkPtok 6 ")" 54 9 154)) (mkPtok 9 "@tag(" 54 0 152) (mkPtok 30 "10" 54 6 153) (mkPtok 6 ")" 54 9 154)))] (LengthField (mkSpan (mkPtok 22 "u32" 54 11 155) (mkPtok 40 "," 57 4 160)) (mkLengthFieldDecl (mkSpan (mkPtok 22 "u32" 54 11 155) (mkPtok 40 "," 57 4 160)) (Some (TyBasic (mkSpan (mkPtok 22 "u32" 54 11 155) (mkPtok 22 "u32" 54 11 155)) (mkBasicType (mkSpan (mkPtok 22 "u32" 54 11 155) (mkPtok 22 "u32" 54 11 155)) (mkPtok 22 "u32" 54 11 155)))) (mkPtok 42 "zchar" 55 0 156) (mkLengthOf (mkSpan (mkPtok 7 "@lengthOf(" 55 6 157) (mkPtok 6 ")" 56 4 159)) (mkPtok 7 "@lengthOf(" 55 6 157) (mkPtok 42 "u8x" 56 0 158) (mkPtok 6 ")" 56 4 159)) None (mkPtok 40 "," 57 4 160)))); (mkFieldWithAttr (mkSpan (mkPtok 7 "@lengthOf(" 57 6 161) (mkPtok 40 "," 61 3 169)) [(FALengthOf (mkSpan (mkPtok 7 "@lengthOf(" 57 6 161) (mkPtok 6 ")" 59 7 164)) (mkLengthOf (mkSpan (mkPtok 7 "@lengthOf(" 57 6 161) (mkPtok 6 ")" 59 7 164)) (mkPtok 7 "@lengthOf(" 57 6 161) (mkPtok 42 "tag" 59 4 163) (mkPtok 6 ")" 59 7 164)))] (MetaField (mkSpan (mkPtok 14 "zchar[" 59 9 165) (mkPtok 40 "," 61 3 169)) None (mkMetaDecl (mkSpan (mkPtok 14 "zchar[" 59 9 165) (mkPtok 40 "," 61 3 169)) (TyFixed (mkSpan (mkPtok 14 "zchar[" 59 9 165) (mkPtok 13 "]" 60 4 167)) (mkFixedString (mkSpan (mkPtok 14 "zchar[" 59 9 165) (mkPtok 13 "]" 60 4 167)) (mkPtok 14 "zchar[" 59 9 165) (mkPtok 30 "7" 59 16 166) (mkPtok 13 "]" 60 4 167))) (mkPtok 42 "_x" 61 0 168) None (mkPtok 40 "," 61 3 169)))); (mkFieldWithAttr (mkSpan (mkPtok 9 "@tag(" 62 0 170) (mkPtok 40 "," 75 0 205)) [(FATag (mkSpan (mkPtok 9 "@tag(" 62 0 170) (mkPtok 6 ")" 62 12 172)) (mkTagAttr (mkSpan (mkPtok 9 "@tag(" 62 0 170) (mkPtok 6 ")" 62 12 172)) (mkPtok 9 "@tag(" 62 0 170) (mkPtok 30 "65535" 62 6 171) (mkPtok 6 ")" 62 12 172)))] (InerObjectField (mkSpan (mkPtok 42 "tag" 62 14 173) (mkPtok 40 "," 75 0 205)) None (InerObjectDecl (mkSpan (mkPtok 42 "tag" 62 14 173) (mkPtok 3 "}" 72 21 202)) (mkPtok 42 "tag" 62 14 173) (mkPtok 2 "{" 62 18 174) [(ObjectField (mkSpan (mkPtok 42 "uint8x" 63 0 176) (mkPtok 40 "," 63 19 178)) None (mkPtok 42 "uint8x" 63 0 176) (Some (mkPtok 42 "repeatCount" 63 7 177)) None (mkPtok 40 "," 63 19 178)); (MatchField (mkSpan (mkPtok 38 "match" 63 21 179) (mkPtok 40 "," 72 20 201)) (mkMatchFieldDecl (mkSpan (mkPtok 38 "match" 63 21 179) (mkPtok 3 "}" 72 19 200)) (mkPtok 38 "match" 63 21 179) (mkPtok 42 "packetx" 63 27 180) (mkPtok 17 "as" 64 0 181) (mkPtok 42 "zchar" 64 3 182) (mkPtok 2 "{" 64 9 183) [(mkMatchPair (mkSpan (mkPtok 18 "[" 65 4 184) (mkPtok 42 "leftPad" 69 7 192)) (MKList (mkKeyList (mkSpan (mkPtok 18 "[" 65 4 184) (mkPtok 13 "]" 69 4 190)) (mkPtok 18 "[" 65 4 184) (mkPtok 31 (string_of_bytes [34; 240; 159; 152; 128; 34]%N) 66 0 185) [((mkPtok 40 "," 66 4 186), (mkPtok 30 "007" 67 0 188))] (mkPtok 13 "]" 69 4 190))) (mkPtok 39 ":" 69 6 191) (mkPtok 42 "leftPad" 69 7 192) None); (mkMatchPair (mkSpan (mkPtok 30 "7" 69 15 193) (mkPtok 40 "," 71 0 196)) (MKDigits (mkPtok 30 "7" 69 15 193)) (mkPtok 39 ":" 70 4 194) (mkPtok 42 "zchar" 70 6 195) (Some (mkPtok 40 "," 71 0 196))); (mkMatchPair (mkSpan (mkPtok 31 """packet""" 72 0 197) (mkPtok 42 "lengthOf" 72 10 199)) (MKString (mkPtok 31 """packet""" 72 0 197)) (mkPtok 39 ":" 72 8 198) (mkPtok 42 "lengthOf" 72 10 199) None)] (mkPtok 3 "}" 72 19 200)) (mkPtok 40 "," 72 20 201))] (mkPtok 3 "}" 72 21 202)) (mkPtok 40 "," 75 0 205))); (mkFieldWithAttr (mkSpan (mkPtok 14 "zchar[" 75 2 206) (mkPtok 40 "," 77 5 213)) [] (LengthField (mkSpan (mkPtok 14 "zchar[" 75 2 206) (mkPtok 40 "," 77 5 213)) (mkLengthFieldDecl (mkSpan (mkPtok 14 "zchar[" 75 2 206) (mkPtok 40 "," 77 5 213)) (Some (TyFixed (mkSpan (mkPtok 14 "zchar[" 75 2 206) (mkPtok 13 "]" 75 11 208)) (mkFixedString (mkSpan (mkPtok 14 "zchar[" 75 2 206) (mkPtok 13 "]" 75 11 208)) (mkPtok 14 "zchar[" 75 2 206) (mkPtok 30 "3" 75 9 207) (mkPtok 13 "]" 75 11 208)))) (mkPtok 42 "pack" 75 13 209) (mkLengthOf (mkSpan (mkPtok 7 "@lengthOf(" 76 0 210) (mkPtok 6 ")" 77 3 212)) (mkPtok 7 "@lengthOf(" 76 0 210) (mkPtok 42 "T" 77 0 211) (mkPtok 6 ")" 77 3 212)) None (mkPtok 40 "," 77 5 213)))); (mkFieldWithAttr (mkSpan (mkPtok 36 "repeat" 77 7 214) (mkPtok 40 "," 78 0 217)) [] (ObjectField (mkSpan (mkPtok 36 "repeat" 77 7 214) (mkPtok 40 "," 78 0 217)) (Some (mkPtok 36 "repeat" 77 7 214)) (mkPtok 42 "A" 77 14 215) (Some (mkPtok 42 "charz" 77 16 216)) None (mkPtok 40 "," 78 0 217))); (mkFieldWithAttr (mkSpan (mkPtok 36 "repeat" 78 2 218) (mkPtok 40 "," 80 23 222)) [] (ObjectField (mkSpan (mkPtok 36 "repeat" 78 2 218) (mkPtok 40 "," 80 23 222)) (Some (mkPtok 36 "repeat" 78 2 218)) (mkPtok 42 "charz" 80 4 220) None (Some (mkPtok 43 "`100% of %d`" 80 10 221)) (mkPtok 40 "," 80 23 222))); (mkFieldWithAttr (mkSpan (mkPtok 9 "@tag(" 80 25 223) (mkPtok 40 "," 82 21 236)) [(FATag (mkSpan (mkPtok 9 "@tag(" 80 25 223) (mkPtok 6 ")" 80 34 225)) (mkTagAttr (mkSpan (mkPtok 9 "@tag(" 80 25 223) (mkPtok 6 ")" 80 34 225)) (mkPtok 9 "@tag(" 80 25 223) (mkPtok 30 "007" 80 31 224) (mkPtok 6 ")" 80 34 225))); (FATag (mkSpan (mkPtok 9 "@tag(" 80 35 226) (mkPtok 6 ")" 80 44 228)) (mkTagAttr (mkSpan (mkPtok 9 "@tag(" 80 35 226) (mkPtok 6 ")" 80 44 228)) (mkPtok 9 "@tag(" 80 35 226) (mkPtok 30 "00" 80 41 227) (mkPtok 6 ")" 80 44 228))); (FACalculatedFrom (mkSpan (mkPtok 5 "@calculatedFrom(" 80 45 229) (mkPtok 6 ")" 81 9 231)) (mkCalculatedFrom (mkSpan (mkPtok 5 "@calculatedFrom(" 80 45 229) (mkPtok 6 ")" 81 9 231)) (mkPtok 5 "@calculatedFrom(" 80 45 229) (mkPtok 31 """abc""" 81 4 230) (mkPtok 6 ")" 81 9 231)))] (MetaField (mkSpan (mkPtok 36 "repeat" 81 11 232) (mkPtok 40 "," 82 21 236)) (Some (mkPtok 36 "repeat" 81 11 232)) (mkMetaDecl (mkSpan (mkPtok 23 "u64" 82 0 233) (mkPtok 40 "," 82 21 236)) (TyBasic (mkSpan (mkPtok 23 "u64" 82 0 233) (mkPtok 23 "u64" 82 0 233)) (mkBasicType (mkSpan (mkPtok 23 "u64" 82 0 233) (mkPtok 23 "u64" 82 0 233)) (mkPtok 23 "u64" 82 0 233))) (mkPtok 42 "repeatCount" 82 4 234) (Some (mkPtok 43 "`doc`" 82 15 235)) (mkPtok 40 "," 82 21 236)))); (mkFieldWithAttr (mkSpan (mkPtok 42 "stringy" 83 0 238) (mkPtok 40 "," 83 17 240)) [] (ObjectField (mkSpan (mkPtok 42 "stringy" 83 0 238) (mkPtok 40 "," 83 17 240)) None (mkPtok 42 "stringy" 83 0 238) None (Some (mkPtok 43 "`{ , }`" 83 9 239)) (mkPtok 40 "," 83 17 240)))] (mkPtok 3 "}" 83 19 241))); (DPacket (mkPacketDef (mkSpan (mkPtok 35 "packet" 83 21 242) (mkPtok 3 "}" 136 4 404)) None (mkPtok 35 "packet" 83 21 242) (mkPtok 42 "crc" 83 28 243) (mkPtok 2 "{" 84 4 244) [(mkFieldWithAttr (mkSpan (mkPtok 25 "i16" 84 6 245) (mkPtok 40 "," 86 0 248)) [] (MetaField (mkSpan (mkPtok 25 "i16" 84 6 245) (mkPtok 40 "," 86 0 248)) None (mkMetaDecl (mkSpan (mkPtok 25 "i16" 84 6 245) (mkPtok 40 "," 86 0 248)) (TyBasic (mkSpan (mkPtok 25 "i16" 84 6 245) (mkPtok 25 "i16" 84 6 245)) (mkBasicType (mkSpan (mkPtok 25 "i16" 84 6 245) (mkPtok 25 "i16" 84 6 245)) (mkPtok 25 "i16" 84 6 245))) (mkPtok 42 "metadata" 85 0 246) None (mkPtok 40 "," 86 0 248)))); (mkFieldWithAttr (mkSpan (mkPtok 38 "match" 86 2 249) (mkPtok 40 "," 97 17 282)) [] (MatchField (mkSpan (mkPtok 38 "match" 86 2 249) (mkPtok 40 "," 97 17 282)) (mkMatchFieldDecl (mkSpan (mkPtok 38 "match" 86 2 249) (mkPtok 3 "}" 97 16 281)) (mkPtok 38 "match" 86 2 249) (mkPtok 42 "string_" 87 4 250) (mkPtok 17 "as" 87 12 251) (mkPtok 42 "float" 87 16 252) (mkPtok 2 "{" 87 21 253) [(mkMatchPair (mkSpan (mkPtok 30 "42" 88 4 254) (mkPtok 40 "," 89 4 257)) (MKDigits (mkPtok 30 "42" 88 4 254)) (mkPtok 39 ":" 88 6 255) (mkPtok 42 "rootA" 88 8 256) (Some (mkPtok 40 "," 89 4 257))); (mkMatchPair (mkSpan (mkPtok 30 "65535" 89 6 258) (mkPtok 42 "roots" 90 0 260)) (MKDigits (mkPtok 30 "65535" 89 6 258)) (mkPtok 39 ":" 89 12 259) (mkPtok 42 "roots" 90 0 260) None); (mkMatchPair (mkSpan (mkPtok 30 "00" 90 6 261) (mkPtok 40 "," 90 13 264)) (MKDigits (mkPtok 30 "00" 90 6 261)) (mkPtok 39 ":" 90 9 262) (mkPtok 42 "As" 90 11 263) (Some (mkPtok 40 "," 90 13 264))); (mkMatchPair (mkSpan (mkPtok 18 "[" 91 4 265) (mkPtok 40 "," 96 8 275)) (MKList (mkKeyList (mkSpan (mkPtok 18 "[" 91 4 265) (mkPtok 13 "]" 95 15 271)) (mkPtok 18 "[" 91 4 265) (mkPtok 31 """// no comment""" 92 0 267) [((mkPtok 40 "," 94 4 269), (mkPtok 30 "0123456789" 95 4 270))] (mkPtok 13 "]" 95 15 271))) (mkPtok 39 ":" 95 17 272) (mkPtok 42 "options1" 96 0 274) (Some (mkPtok 40 "," 96 8 275))); (mkMatchPair (mkSpan (mkPtok 30 "00" 97 0 277) (mkPtok 40 "," 97 14 280)) (MKDigits (mkPtok 30 "00" 97 0 277)) (mkPtok 39 ":" 97 2 278) (mkPtok 42 "BodyLength" 97 4 279) (Some (mkPtok 40 "," 97 14 280)))] (mkPtok 3 "}" 97 16 281)) (mkPtok 40 "," 97 17 282))); (mkFieldWithAttr (mkSpan (mkPtok 36 "repeat" 97 19 283) (mkPtok 40 "," 104 7 295)) [] (InerObjectField (mkSpan (mkPtok 36 "repeat" 97 19 283) (mkPtok 40 "," 104 7 295)) (Some (mkPtok 36 "repeat" 97 19 283)) (InerObjectDecl (mkSpan (mkPtok 42 "x" 97 26 284) (mkPtok 3 "}" 104 5 294)) (mkPtok 42 "x" 97 26 284) (mkPtok 2 "{" 97 27 285) [(ObjectField (mkSpan (mkPtok 36 "repeat" 98 0 286) (mkPtok 40 "," 104 4 293)) (Some (mkPtok 36 "repeat" 98 0 286)) (mkPtok 42 "o" 99 0 287) (Some (mkPtok 42 "i8i8" 99 2 288)) (Some (mkPtok 43 (string_of_bytes [96; 195; 169; 96]%N) 102 0 291)) (mkPtok 40 "," 104 4 293))] (mkPtok 3 "}" 104 5 294)) (mkPtok 40 "," 104 7 295))); (mkFieldWithAttr (mkSpan (mkPtok 38 "match" 104 9 296) (mkPtok 40 "," 118 11 342)) [] (MatchField (mkSpan (mkPtok 38 "match" 104 9 296) (mkPtok 40 "," 118 11 342)) (mkMatchFieldDecl (mkSpan (mkPtok 38 "match" 104 9 296) (mkPtok 3 "}" 118 9 341)) (mkPtok 38 "match" 104 9 296) (mkPtok 42 "string_" 104 15 297) (mkPtok 17 "as" 105 0 298) (mkPtok 42 "Z9_" 106 4 299) (mkPtok 2 "{" 106 8 300) [(mkMatchPair (mkSpan (mkPtok 31 """abc""" 106 10 301) (mkPtok 40 "," 106 20 304)) (MKString (mkPtok 31 """abc""" 106 10 301)) (mkPtok 39 ":" 106 16 302) (mkPtok 42 "a1" 106 18 303) (Some (mkPtok 40 "," 106 20 304))); (mkMatchPair (mkSpan (mkPtok 18 "[" 106 22 305) (mkPtok 40 "," 111 9 320)) (MKList (mkKeyList (mkSpan (mkPtok 18 "[" 106 22 305) (mkPtok 13 "]" 109 21 316)) (mkPtok 18 "[" 106 22 305) (mkPtok 30 "42" 106 24 306) [((mkPtok 40 "," 107 0 307), (mkPtok 30 "255" 107 2 308)); ((mkPtok 40 "," 108 0 310), (mkPtok 30 "3" 109 4 311)); ((mkPtok 40 "," 109 6 312), (mkPtok 31 (string_of_bytes [34; 97; 9; 98; 34]%N) 109 8 313)); ((mkPtok 40 "," 109 14 314), (mkPtok 31 (string_of_bytes [34; 92; 195; 169; 34]%N) 109 16 315))] (mkPtok 13 "]" 109 21 316))) (mkPtok 39 ":" 110 0 317) (mkPtok 42 "MetaDataX" 111 0 319) (Some (mkPtok 40 "," 111 9 320))); (mkMatchPair (mkSpan (mkPtok 30 "3" 111 11 321) (mkPtok 40 "," 113 13 325)) (MKDigits (mkPtok 30 "3" 111 11 321)) (mkPtok 39 ":" 111 13 322) (mkPtok 42 "matchKey" 113 4 324) (Some (mkPtok 40 "," 113 13 325))); (mkMatchPair (mkSpan (mkPtok 18 "[" 114 0 326) (mkPtok 40 "," 118 8 340)) (MKList (mkKeyList (mkSpan (mkPtok 18 "[" 114 0 326) (mkPtok 13 "]" 117 17 337)) (mkPtok 18 "[" 114 0 326) (mkPtok 31 (string_of_bytes [34; 92; 195; 169; 34]%N) 115 0 328) [((mkPtok 40 "," 116 4 329), (mkPtok 30 "1" 116 6 330)); ((mkPtok 40 "," 116 7 331), (mkPtok 31 """abc""" 117 0 332)); ((mkPtok 40 "," 117 6 333), (mkPtok 30 "255" 117 8 334)); ((mkPtok 40 "," 117 12 335), (mkPtok 30 "255" 117 14 336))] (mkPtok 13 "]" 117 17 337))) (mkPtok 39 ":" 117 18 338) (mkPtok 42 "string_" 118 0 339) (Some (mkPtok 40 "," 118 8 340)))] (mkPtok 3 "}" 118 9 341)) (mkPtok 40 "," 118 11 342))); (mkFieldWithAttr (mkSpan (mkPtok 42 "Foo" 119 0 343) (mkPtok 40 "," 131 0 385)) [] (InerObjectField (mkSpan (mkPtok 42 "Foo" 119 0 343) (mkPtok 40 "," 131 0 385)) None (InerObjectDecl (mkSpan (mkPtok 42 "Foo" 119 0 343) (mkPtok 3 "}" 130 46 383)) (mkPtok 42 "Foo" 119 0 343) (mkPtok 2 "{" 120 0 344) [(InerObjectField (mkSpan (mkPtok 42 "crc" 120 2 345) (mkPtok 40 "," 130 3 373)) None (InerObjectDecl (mkSpan (mkPtok 42 "crc" 120 2 345) (mkPtok 3 "}" 130 2 372)) (mkPtok 42 "crc" 120 2 345) (mkPtok 2 "{" 120 6 346) [(CheckSumField (mkSpan (mkPtok 16 "char[]" 120 8 347) (mkPtok 40 "," 124 4 354)) (mkChecksumFieldDecl (mkSpan (mkPtok 16 "char[]" 120 8 347) (mkPtok 40 "," 124 4 354)) (Some (TyDynamic (mkSpan (mkPtok 16 "char[]" 120 8 347) (mkPtok 16 "char[]" 120 8 347)) (mkDynamicString (mkSpan (mkPtok 16 "char[]" 120 8 347) (mkPtok 16 "char[]" 120 8 347)) (mkPtok 16 "char[]" 120 8 347)))) (mkPtok 42 "stringy" 120 15 348) (mkCalculatedFrom (mkSpan (mkPtok 5 "@calculatedFrom(" 120 23 349) (mkPtok 6 ")" 122 4 352)) (mkPtok 5 "@calculatedFrom(" 120 23 349) (mkPtok 31 (string_of_bytes [34; 92; 195; 169; 34]%N) 120 40 350) (mkPtok 6 ")" 122 4 352)) None (mkPtok 40 "," 124 4 354))); (InerObjectField (mkSpan (mkPtok 36 "repeat" 125 0 355) (mkPtok 40 "," 128 4 367)) (Some (mkPtok 36 "repeat" 125 0 355)) (InerObjectDecl (mkSpan (mkPtok 42 "a1" 125 7 356) (mkPtok 3 "}" 127 0 366)) (mkPtok 42 "a1" 125 7 356) (mkPtok 2 "{" 125 10 357) [(CheckSumField (mkSpan (mkPtok 12 "char[" 125 12 358) (mkPtok 40 "," 126 42 365)) (mkChecksumFieldDecl (mkSpan (mkPtok 12 "char[" 125 12 358) (mkPtok 40 "," 126 42 365)) (Some (TyFixed (mkSpan (mkPtok 12 "char[" 125 12 358) (mkPtok 13 "]" 125 21 360)) (mkFixedString (mkSpan (mkPtok 12 "char[" 125 12 358) (mkPtok 13 "]" 125 21 360)) (mkPtok 12 "char[" 125 12 358) (mkPtok 30 "42" 125 18 359) (mkPtok 13 "]" 125 21 360)))) (mkPtok 42 "calculatedFrom" 126 4 361) (mkCalculatedFrom (mkSpan (mkPtok 5 "@calculatedFrom(" 126 19 362) (mkPtok 6 ")" 126 41 364)) (mkPtok 5 "@calculatedFrom(" 126 19 362) (mkPtok 31 """a\\""" 126 36 363) (mkPtok 6 ")" 126 41 364)) None (mkPtok 40 "," 126 42 365)))] (mkPtok 3 "}" 127 0 366)) (mkPtok 40 "," 128 4 367)); (MetaField (mkSpan (mkPtok 29 "float64" 128 5 368) (mkPtok 40 "," 130 0 371)) None (mkMetaDecl (mkSpan (mkPtok 29 "float64" 128 5 368) (mkPtok 40 "," 130 0 371)) (TyBasic (mkSpan (mkPtok 29 "float64" 128 5 368) (mkPtok 29 "float64" 128 5 368)) (mkBasicType (mkSpan (mkPtok 29 "float64" 128 5 368) (mkPtok 29 "float64" 128 5 368)) (mkPtok 29 "float64" 128 5 368))) (mkPtok 42 "Packet" 128 13 369) (Some (mkPtok 43 (string_of_bytes [96; 99; 114; 108; 102; 13; 10; 108; 105; 110; 101; 96]%N) 128 20 370)) (mkPtok 40 "," 130 0 371)))] (mkPtok 3 "}" 130 2 372)) (mkPtok 40 "," 130 3 373)); (InerObjectField (mkSpan (mkPtok 42 "As" 130 5 374) (mkPtok 40 "," 130 44 382)) None (InerObjectDecl (mkSpan (mkPtok 42 "As" 130 5 374) (mkPtok 3 "}" 130 43 381)) (mkPtok 42 "As" 130 5 374) (mkPtok 2 "{" 130 8 375) [(CheckSumField (mkSpan (mkPtok 42 "zchar" 130 10 376) (mkPtok 40 "," 130 41 380)) (mkChecksumFieldDecl (mkSpan (mkPtok 42 "zchar" 130 10 376) (mkPtok 40 "," 130 41 380)) None (mkPtok 42 "zchar" 130 10 376) (mkCalculatedFrom (mkSpan (mkPtok 5 "@calculatedFrom(" 130 16 377) (mkPtok 6 ")" 130 39 379)) (mkPtok 5 "@calculatedFrom(" 130 16 377) (mkPtok 31 """a\\""" 130 33 378) (mkPtok 6 ")" 130 39 379)) None (mkPtok 40 "," 130 41 380)))] (mkPtok 3 "}" 130 43 381)) (mkPtok 40 "," 130 44 382))] (mkPtok 3 "}" 130 46 383)) (mkPtok 40 "," 131 0 385))); (mkFieldWithAttr (mkSpan (mkPtok 25 "int16" 131 2 386) (mkPtok 40 "," 132 42 393)) [] (CheckSumField (mkSpan (mkPtok 25 "int16" 131 2 386) (mkPtok 40 "," 132 42 393)) (mkChecksumFieldDecl (mkSpan (mkPtok 25 "int16" 131 2 386) (mkPtok 40 "," 132 42 393)) (Some (TyBasic (mkSpan (mkPtok 25 "int16" 131 2 386) (mkPtok 25 "int16" 131 2 386)) (mkBasicType (mkSpan (mkPtok 25 "int16" 131 2 386) (mkPtok 25 "int16" 131 2 386)) (mkPtok 25 "int16" 131 2 386)))) (mkPtok 42 "string_" 131 8 387) (mkCalculatedFrom (mkSpan (mkPtok 5 "@calculatedFrom(" 132 0 389) (mkPtok 6 ")" 132 33 391)) (mkPtok 5 "@calculatedFrom(" 132 0 389) (mkPtok 31 """// no comment""" 132 17 390) (mkPtok 6 ")" 132 33 391)) (Some (mkPtok 43 (string_of_bytes [96; 230; 182; 136; 230; 129; 175; 231; 177; 187; 229; 158; 139; 96]%N) 132 35 392)) (mkPtok 40 "," 132 42 393)))); (mkFieldWithAttr (mkSpan (mkPtok 36 "repeat" 132 44 394) (mkPtok 40 "," 134 0 397)) [] (ObjectField (mkSpan (mkPtok 36 "repeat" 132 44 394) (mkPtok 40 "," 134 0 397)) (Some (mkPtok 36 "repeat" 132 44 394)) (mkPtok 42 "x" 132 51 395) None (Some (mkPtok 43 (string_of_bytes [96; 10; 96]%N) 132 53 396)) (mkPtok 40 "," 134 0 397))); (mkFieldWithAttr (mkSpan (mkPtok 14 "zchar[" 135 0 399) (mkPtok 40 "," 135 20 403)) [] (MetaField (mkSpan (mkPtok 14 "zchar[" 135 0 399) (mkPtok 40 "," 135 20 403)) None (mkMetaDecl (mkSpan (mkPtok 14 "zchar[" 135 0 399) (mkPtok 40 "," 135 20 403)) (TyFixed (mkSpan (mkPtok 14 "zchar[" 135 0 399) (mkPtok 13 "]" 135 13 401)) (mkFixedString (mkSpan (mkPtok 14 "zchar[" 135 0 399) (mkPtok 13 "]" 135 13 401)) (mkPtok 14 "zchar[" 135 0 399) (mkPtok 30 "65535" 135 7 400) (mkPtok 13 "]" 135 13 401))) (mkPtok 42 "i64_" 135 15 402) None (mkPtok 40 "," 135 20 403))))] (mkPtok 3 "}" 136 4 404)))])).
+Eval vm_compute in ("<<<M177>>>" ++ check (runes_of_ascii "options{
+    metadata = '0'}
+options{u =
+1 ;msg_type = string;	As = ""{,}"";
+i8i8 = string; crc// `tick` ""quote"" 'q'
+=
+char[ 4294967296
+] }")).
+Eval vm_compute in ("<<<M187>>>" ++ check (runes_of_ascii "MetaData int{ }packet T
+    {char[ 65535 ]	options1
+, @calculatedFrom(
+    ""// no comment"" ) // " ++ [128512]%N ++ runes_of_ascii " emoji
+leftPad { match
+zchar as	charz  { [
+    7 ,
+0123456789 ,
+    //
+    007,
+    3 ,0123456789] // " ++ [128512]%N ++ runes_of_ascii " emoji
+: pack ,
+}
+    , } , @tag( 255 ) uint64 string_	@lengthOf( matchKey ) `{ , }` , @lengthOf( Pad
+    /// triple
+    ) repeat matchKey x_y_z , match body as f32a { """ ++ [28040; 24687]%N ++ runes_of_ascii """ : u} ,uint16 As @calculatedFrom(""CRC32"" ) , zchar {//	t
+u8 lengthOf ,} ,
+    }
+packet
+    BodyLength { matchKey { repeat string falsey,
+    // " ++ [27880; 37322]%N ++ runes_of_ascii "
+    } , packetx  @calculatedFrom(""// no comment"" )
+    ,falsey
+// packet A { u8 x, }
+// packet A { u8 x, }
+{ Packet
+A , uint16
+    u@calculatedFrom(""a\""b""
+)
+,//x
+f32 charz @lengthOf( u ) `u8 x,`  ,// @lengthOf(
+},
+@leftPad// " ++ [27880; 37322]%N ++ runes_of_ascii "
+( '\x00' )
+    options1
+    ,
+@rightPad (
+    '0'
+    ) repeatCount{  repeat u8
+body ,
+    }// " ++ [128512]%N ++ runes_of_ascii " emoji
+,
+metadata @lengthOf(	chars
+)
+`a\`
+, @rightPad ( )@lengthOf( Pad )
+    @calculatedFrom( ""abc"") float ,  @calculatedFrom(
+""" ++ [128512]%N ++ runes_of_ascii """) zchar[
+007]
+A ,
+// 50% %s
+// 50% %s
+string Pad// @lengthOf(
+`line1
+line2` ,
+} packet
+MetaDataX{
+    //
+    repeat string As`a\` , } packet// a // b
+As { string repeatCount @lengthOf(
+    Header
+)
+    ,repeat stringy
+    `tab	here`
+// 50% %s
+// @lengthOf(
+,}
+")).
+Eval vm_compute in ("<<<M197>>>" ++ check (runes_of_ascii "options
+    { /// triple
+charz
+//
+// 50% %s
+=""a	b"" ;}
+")).
+Eval vm_compute in ("<<<M207>>>" ++ check (runes_of_ascii "packet uint8x { }
+")).
+Eval vm_compute in ("<<<M217>>>" ++ check (runes_of_ascii "
+packet x
+    { match Foo as stringy  {
+    [
+    ""CRC32"" , //	t
+""{,}"" , ""it's""
+,  ""a\\""
+,
+    // @lengthOf(
+    """ ++ [28040; 24687]%N ++ runes_of_ascii """ , """ ++ [233]%N ++ runes_of_ascii "t" ++ [233]%N ++ runes_of_ascii """]
+// " ++ [27880; 37322]%N ++ runes_of_ascii "
+// @lengthOf(
+: Packet ,} ,
+match Header as
+Foo
+    {
+[ 42
+    , 1
+]: BodyLength , }
+    // `tick` ""quote"" 'q'
+    , i64_ @calculatedFrom(
+    ""it's"" ) `{ , }` ,
+    } root // `tick` ""quote"" 'q'
+packet	stringy { zchar[ 42 ]
+    asx
+`doc` ,
+// packet A { u8 x, }
+//x
+}
+    packet Z9_ { uint8
+// " ++ [27880; 37322]%N ++ runes_of_ascii "
+// " ++ [27880; 37322]%N ++ runes_of_ascii "
+charz @calculatedFrom( ""CRC32"" ) `it's` , match stringy
+    as  u128 { 42 : i8i8// trailing space 
+, 0123456789 : charz ,
+[00
+, ""\" ++ [233]%N ++ runes_of_ascii """ , """ ++ [128512]%N ++ runes_of_ascii """ ,""\n"" , 10 , 42 ,	10 ] :
+falsey	, 10 : pack
+    ,	} , @tag( 10 ) repeat trueish
+{ x_y_z MetaDataX `100% of %d` , } , tag
+@calculatedFrom( ""`tick`"" ) ,
+// c
+// @lengthOf(
+@calculatedFrom(""x y"" ) len // 50% %s
+`
+` ,@calculatedFrom( // " ++ [27880; 37322]%N ++ runes_of_ascii "
+""`tick`""
+    )repeat // a // b
+pack { MetaDataX`" ++ [28040; 24687; 31867; 22411]%N ++ runes_of_ascii "` // `tick` ""quote"" 'q'
+,repeat char[
+007
+    ]
+Header // " ++ [128512]%N ++ runes_of_ascii " emoji
+,}
+, match msg_type as uint8x{ ""a\""b"" :uint8x 00: i64_,
+10 : Header""packet"" :
+f32a ,} , repeat string_ i8i8 , int32
+    charz `// not a comment` ,@rightPad
+( ) // 50% %s
+match T
+    as charz
+{ [""\n""
+    , """" , 10 , 10
+,10 ,
+10 , 4294967296 ]
+:crc// packet A { u8 x, }
+, ""a	b"" : a1
+,	""\" ++ [233]%N ++ runes_of_ascii """  : // @lengthOf(
+len
+, 255
+    // c
+    :
+x
+    } ,}options { // " ++ [128512]%N ++ runes_of_ascii " emoji
+packetx =false } packet u {
+    //x
+    @calculatedFrom( """ ++ [28040; 24687]%N ++ runes_of_ascii """ )repeat
+// packet A { u8 x, }
+// a // b
+char[ 7 ]	Logon, }
 
 ")).
-Eval vm_compute in ("<<<M267>>>" ++ check (runes_of_ascii "options
-{ u // a // b
-=42 x_y_z
-    =' ' ;msg_type =
-    true ; u
-=10 ;  } options { zchar =
-uint8
-;  } // c")).
-Eval vm_compute in ("<<<M277>>>" ++ check (runes_of_ascii "MetaData MetaDataX
-{
-    Foo BodyLength // packet A { u8 x, }
-, As T , }options { calculatedFrom = true  ;// " ++ [27880; 37322]%N ++ runes_of_ascii "
-Header
-= true}
-// trailing space 
-// c
-packet tag {	@leftPad (
-    '\x00') @lengthOf( Foo)// a // b
-@tag(
-    42)string body
-    ,
-@calculatedFrom(""abc"")
-char[ 00
-]	len,@calculatedFrom( """ ++ [128512]%N ++ runes_of_ascii """
-)	repeat tag ,match msg_type as // @lengthOf(
-Header {	65535
-//
-// @lengthOf(
-: roots , ""abc"" //
-: string_ , [ 007 , 0
-    // `tick` ""quote"" 'q'
-    ,	007 ]:
-// " ++ [128512]%N ++ runes_of_ascii " emoji
-// a // b
-zchar 255
-    //
-    : Packet [ ""packet"" , 0 ,
-    ""\" ++ [233]%N ++ runes_of_ascii """ , ""x y"" , 65535 , """ ++ [233]%N ++ runes_of_ascii "t" ++ [233]%N ++ runes_of_ascii """ , 0123456789
-,
-7]
-: //
-matchKey} ,repeat
-int64
-metadata`
-`
-,
-i64_
-`` //
-, char[42 ] MetaDataX
-// `tick` ""quote"" 'q'
-// c
-@calculatedFrom( ""CRC32"" ) , zchar[ 255 ]
-    //
-    roots	@lengthOf(
-    options1
-    ) `two words` , msg_type @calculatedFrom(
-    //x
-    ""\n""  ) ,
-    u len , } packet x {
-} packet falsey
-{  @calculatedFrom(
-""a	b""
-)
-    int64 falsey
-    `{ , }`,
-    repeat f64 crc// trailing space 
-,
-    @tag(	255) uint32 // a // b
-chars `" ++ [28040; 24687; 31867; 22411]%N ++ runes_of_ascii "` , @leftPad ( '\x00'	)@lengthOf( falsey )
-@calculatedFrom(	""a	b"" )  stringy { zchar[ // " ++ [27880; 37322]%N ++ runes_of_ascii "
-7	] Pad `line1
-line2` , string
-    pack,
-    // @lengthOf(
-    float64 string_ ,	},	repeat rootA{	match Logon as
-    /// triple
-    o // " ++ [27880; 37322]%N ++ runes_of_ascii "
-{ 007 //x
-:leftPad
-    , 0	: T , ""CRC32"" :
-T
-[ ""a	b"" ]: Logon , } ,
-    match // @lengthOf(
-x_y_z as
-_x
-{ 10
-:
-metadata , """ ++ [233]%N ++ runes_of_ascii "t" ++ [233]%N ++ runes_of_ascii """
-    : string_,  } ,} ,
-// c
-/// triple
-o{ options1
-    @calculatedFrom("""" ) ,	repeat i32
-body, } , @tag(1 /// triple
-) match packetx// " ++ [27880; 37322]%N ++ runes_of_ascii "
-as rootA
-{
-""" ++ [128512]%N ++ runes_of_ascii """:
-// `tick` ""quote"" 'q'
-//x
-zchar  ,
-    7 :
-    zchar  ,
-[ 0 , 42,
-""a\\"" , 0123456789	, ""it's""
-,3 //	t
-,
-""abc""	, 0123456789	]: lengthOf,
+Eval vm_compute in ("<<<M227>>>" ++ check (runes_of_ascii "//	t
+packet	u8x {repeat uint16 body , }MetaData
+    trueish // packet A { u8 x, }
+{} options
+    {
+    // 50% %s
+    Header
+=
+false ;
+} packet Logon { match i8i8 as options1 { 0
+: MetaDataX,""" ++ [128512]%N ++ runes_of_ascii """ : MetaDataX
+    , [ """ ++ [233]%N ++ runes_of_ascii "t" ++ [233]%N ++ runes_of_ascii """ ,255 ]
+    :T } , repeat a1
+a1 `crlf
+line` ,	@calculatedFrom(
+    ""\" ++ [233]%N ++ runes_of_ascii """
+) o
+@calculatedFrom(
+""a	b"" ) ,
+    // a // b
+    @rightPad //x
+(
+) zchar[1]  stringy
+@lengthOf(
+Z9_), @tag( 1
+)char[
+65535 ]packetx
+, repeat chars {x_y_z	{Logon chars`u8 x,`, } ,
+    } ,
+    u16	_x
+    @lengthOf(Header
+) , @tag(
+65535
+    ) repeat
+uint8x	{int/// triple
+`crlf
+line`
+    , } , @leftPad ( // 50% %s
+'0' )
+@calculatedFrom(
+""a\""b"" ) repeat // " ++ [27880; 37322]%N ++ runes_of_ascii "
+u64 tag , char[]
+MetaDataX
+, } options {
+}
 // " ++ [27880; 37322]%N ++ runes_of_ascii "
-//x
-0
-// trailing space 
-// " ++ [27880; 37322]%N ++ runes_of_ascii "
-: _x, ""1"":
-    Header , }
-    , @rightPad
-    // c
-    ( ) repeat pack {
-match MetaDataX
-    as o { ""a\""b"" : Pad
-[ ""a\""b"" ]:A , 1
-: rootA  , }
-    , match	calculatedFrom as T/// triple
-{ 65535  : stringy , // " ++ [27880; 37322]%N ++ runes_of_ascii "
-65535 :  Packet ,
-    [
-007 , ""CRC32""
-    , 00 , 3 ,
-    65535
-,	""x y"" ,65535 ]: matchKey/// triple
-, 007
-: rootA
-,// @lengthOf(
-}, },char[] u128
-,// a // b
-}")).
-Eval vm_compute in ("<<<M287>>>" ++ check (runes_of_ascii "packet  int  { @calculatedFrom( """ ++ [28040; 24687]%N ++ runes_of_ascii """  )
-@tag(
-    // `tick` ""quote"" 'q'
-    007
-    ) options1 @calculatedFrom( ""CRC32"" ) `tab	here`
-, @lengthOf(
-As )
-    x x_y_z , repeat x
-{ i64 Z9_,
-zchar[
-    // c
-    007 ] body
-//	t
-// a // b
-@lengthOf( uint8x
-    )
-    // c
-    , f64  metadata @calculatedFrom( ""`tick`""	)
-    `tab	here`, }	, } packet msg_type {
-    repeat
-// trailing space 
-// c
-zchar[255 ]A, int64 f32a ,// " ++ [128512]%N ++ runes_of_ascii " emoji
-Pad
-@lengthOf( falsey
-)
-,
-match
-    falsey
-as
-x_y_z {
-7: // `tick` ""quote"" 'q'
-len
-,}
-/// triple
-// c
-, string // " ++ [27880; 37322]%N ++ runes_of_ascii "
-uint8x
-    `a\`,string rootA
-//x
-// a // b
-@lengthOf( int	) ,	}	root
-/// triple
-// `tick` ""quote"" 'q'
-packet pack { crc i64_ , }
 ")).
-Eval vm_compute in ("<<<M297>>>" ++ check (runes_of_ascii "MetaData asx { chars
-f32a , string /// triple
-T , } options
-{ zchar=
-    10
-    // " ++ [27880; 37322]%N ++ runes_of_ascii "
-    crc= true}
+Eval vm_compute in ("<<<M237>>>" ++ check (runes_of_ascii "packet As{  zchar[3 ]
+    o @lengthOf(
+    // trailing space 
+    Header)`doc` , repeat char[] string_ , @tag(1 )
+match BodyLength
+    //	t
+    as msg_type
+{ """ ++ [28040; 24687]%N ++ runes_of_ascii """  :u8x, }
+,  @tag(255 )repeat char[] crc
+    // `tick` ""quote"" 'q'
+    , }
+")).
+Eval vm_compute in ("<<<T237>>>" ++ terms [mkTok 35 "packet" 1 0 false; mkTok 42 "As" 1 7 false; mkTok 2 "{" 1 9 false; mkTok 14 "zchar[" 1 12 false; mkTok 30 "3" 1 18 false; mkTok 13 "]" 1 20 false; mkTok 42 "o" 2 4 false; mkTok 7 "@lengthOf(" 2 6 false; mkTok 44 "// trailing space " 3 4 true; mkTok 42 "Header" 4 4 false; mkTok 6 ")" 4 10 false; mkTok 43 "`doc`" 4 11 false; mkTok 40 "," 4 17 false; mkTok 36 "repeat" 4 19 false; mkTok 16 "char[]" 4 26 false; mkTok 42 "string_" 4 33 false; mkTok 40 "," 4 41 false; mkTok 9 "@tag(" 4 43 false; mkTok 30 "1" 4 48 false; mkTok 6 ")" 4 50 false; mkTok 38 "match" 5 0 false; mkTok 42 "BodyLength" 5 6 false; mkTok 44 (string_of_bytes [47; 47; 9; 116]%N) 6 4 true; mkTok 17 "as" 7 4 false; mkTok 42 "msg_type" 7 7 false; mkTok 2 "{" 8 0 false; mkTok 31 (string_of_bytes [34; 230; 182; 136; 230; 129; 175; 34]%N) 8 2 false; mkTok 39 ":" 8 8 false; mkTok 42 "u8x" 8 9 false; mkTok 40 "," 8 12 false; mkTok 3 "}" 8 14 false; mkTok 40 "," 9 0 false; mkTok 9 "@tag(" 9 3 false; mkTok 30 "255" 9 8 false; mkTok 6 ")" 9 12 false; mkTok 36 "repeat" 9 13 false; mkTok 16 "char[]" 9 20 false; mkTok 42 "crc" 9 27 false; mkTok 44 "// `tick` ""quote"" 'q'" 10 4 true; mkTok 40 "," 11 4 false; mkTok 3 "}" 11 6 false; mkTok 0 "<EOF>" 12 0 false] (mkPacket (mkPtok 35 "packet" 1 0 0) (Some (mkPtok 3 "}" 11 6 40)) [(DPacket (mkPacketDef (mkSpan (mkPtok 35 "packet" 1 0 0) (mkPtok 3 "}" 11 6 40)) None (mkPtok 35 "packet" 1 0 0) (mkPtok 42 "As" 1 7 1) (mkPtok 2 "{" 1 9 2) [(mkFieldWithAttr (mkSpan (mkPtok 14 "zchar[" 1 12 3) (mkPtok 40 "," 4 17 12)) [] (LengthField (mkSpan (mkPtok 14 "zchar[" 1 12 3) (mkPtok 40 "," 4 17 12)) (mkLengthFieldDecl (mkSpan (mkPtok 14 "zchar[" 1 12 3) (mkPtok 40 "," 4 17 12)) (Some (TyFixed (mkSpan (mkPtok 14 "zchar[" 1 12 3) (mkPtok 13 "]" 1 20 5)) (mkFixedString (mkSpan (mkPtok 14 "zchar[" 1 12 3) (mkPtok 13 "]" 1 20 5)) (mkPtok 14 "zchar[" 1 12 3) (mkPtok 30 "3" 1 18 4) (mkPtok 13 "]" 1 20 5)))) (mkPtok 42 "o" 2 4 6) (mkLengthOf (mkSpan (mkPtok 7 "@lengthOf(" 2 6 7) (mkPtok 6 ")" 4 10 10)) (mkPtok 7 "@lengthOf(" 2 6 7) (mkPtok 42 "Header" 4 4 9) (mkPtok 6 ")" 4 10 10)) (Some (mkPtok 43 "`doc`" 4 11 11)) (mkPtok 40 "," 4 17 12)))); (mkFieldWithAttr (mkSpan (mkPtok 36 "repeat" 4 19 13) (mkPtok 40 "," 4 41 16)) [] (MetaField (mkSpan (mkPtok 36 "repeat" 4 19 13) (mkPtok 40 "," 4 41 16)) (Some (mkPtok 36 "repeat" 4 19 13)) (mkMetaDecl (mkSpan (mkPtok 16 "char[]" 4 26 14) (mkPtok 40 "," 4 41 16)) (TyDynamic (mkSpan (mkPtok 16 "char[]" 4 26 14) (mkPtok 16 "char[]" 4 26 14)) (mkDynamicString (mkSpan (mkPtok 16 "char[]" 4 26 14) (mkPtok 16 "char[]" 4 26 14)) (mkPtok 16 "char[]" 4 26 14))) (mkPtok 42 "string_" 4 33 15) None (mkPtok 40 "," 4 41 16)))); (mkFieldWithAttr (mkSpan (mkPtok 9 "@tag(" 4 43 17) (mkPtok 40 "," 9 0 31)) [(FATag (mkSpan (mkPtok 9 "@tag(" 4 43 17) (mkPtok 6 ")" 4 50 19)) (mkTagAttr (mkSpan (mkPtok 9 "@tag(" 4 43 17) (mkPtok 6 ")" 4 50 19)) (mkPtok 9 "@tag(" 4 43 17) (mkPtok 30 "1" 4 48 18) (mkPtok 6 ")" 4 50 19)))] (MatchField (mkSpan (mkPtok 38 "match" 5 0 20) (mkPtok 40 "," 9 0 31)) (mkMatchFieldDecl (mkSpan (mkPtok 38 "match" 5 0 20) (mkPtok 3 "}" 8 14 30)) (mkPtok 38 "match" 5 0 20) (mkPtok 42 "BodyLength" 5 6 21) (mkPtok 17 "as" 7 4 23) (mkPtok 42 "msg_type" 7 7 24) (mkPtok 2 "{" 8 0 25) [(mkMatchPair (mkSpan (mkPtok 31 (string_of_bytes [34; 230; 182; 136; 230; 129; 175; 34]%N) 8 2 26) (mkPtok 40 "," 8 12 29)) (MKString (mkPtok 31 (string_of_bytes [34; 230; 182; 136; 230; 129; 175; 34]%N) 8 2 26)) (mkPtok 39 ":" 8 8 27) (mkPtok 42 "u8x" 8 9 28) (Some (mkPtok 40 "," 8 12 29)))] (mkPtok 3 "}" 8 14 30)) (mkPtok 40 "," 9 0 31))); (mkFieldWithAttr (mkSpan (mkPtok 9 "@tag(" 9 3 32) (mkPtok 40 "," 11 4 39)) [(FATag (mkSpan (mkPtok 9 "@tag(" 9 3 32) (mkPtok 6 ")" 9 12 34)) (mkTagAttr (mkSpan (mkPtok 9 "@tag(" 9 3 32) (mkPtok 6 ")" 9 12 34)) (mkPtok 9 "@tag(" 9 3 32) (mkPtok 30 "255" 9 8 33) (mkPtok 6 ")" 9 12 34)))] (MetaField (mkSpan (mkPtok 36 "repeat" 9 13 35) (mkPtok 40 "," 11 4 39)) (Some (mkPtok 36 "repeat" 9 13 35)) (mkMetaDecl (mkSpan (mkPtok 16 "char[]" 9 20 36) (mkPtok 40 "," 11 4 39)) (TyDynamic (mkSpan (mkPtok 16 "char[]" 9 20 36) (mkPtok 16 "char[]" 9 20 36)) (mkDynamicString (mkSpan (mkPtok 16 "char[]" 9 20 36) (mkPtok 16 "char[]" 9 20 36)) (mkPtok 16 "char[]" 9 20 36))) (mkPtok 42 "crc" 9 27 37) None (mkPtok 40 "," 11 4 39))))] (mkPtok 3 "}" 11 6 40)))])).
+Eval vm_compute in ("<<<M247>>>" ++ check (@nil rune)).
+Eval vm_compute in ("<<<M257>>>" ++ check (runes_of_ascii "options //
+{ o = zchar[ 0 ] ;
+    // 50% %s
+    leftPad ='0'
+    ; charz =
+""packet"" // a // b
+; zchar
+    =
+i32
+    ;u8x = true } MetaData As {
+    char[ 0 ] As `100% of %d` , i64 charz ,
+tag
+len`tab	here`
+, //
+Logon leftPad `it's`,
+char[]
+x`crlf
+line`
+,
+}
+root //
+packet _x{ } packet
+// `tick` ""quote"" 'q'
+// c
+Header { @leftPad ( '\x00' ) Header
+    //
+    @lengthOf(	metadata
+    )
+    `" ++ [28040; 24687; 31867; 22411]%N ++ runes_of_ascii "` , } root packet
+    //x
+    f32a  { @lengthOf(
+    int ) repeat Foo { u32 i64_
+, } ,
+Packet  @lengthOf(
+tag
+)
+    `u8 x,` ,
+    @calculatedFrom(""" ++ [233]%N ++ runes_of_ascii "t" ++ [233]%N ++ runes_of_ascii """
+    ) @calculatedFrom( ""a	b""// trailing space 
+)
+    char[]	lengthOf`{ , }` , // a // b
+repeat int16 falsey `
+` , _x	u128, @lengthOf( pack
+)	repeat int32  trueish `100% of %d` , // " ++ [27880; 37322]%N ++ runes_of_ascii "
+@lengthOf(	i64_ ) match A as
+    x_y_z{
+    // @lengthOf(
+    [ """ ++ [28040; 24687]%N ++ runes_of_ascii """ ,	0123456789,	0 ,7	, 65535,
+    /// triple
+    ""{,}"" // " ++ [27880; 37322]%N ++ runes_of_ascii "
+] : //x
+options1,
+    ""`tick`"" :	uint8x ""packet"" : charz ,
+}
+, @tag( 0123456789) char[ 10 ] roots
+    @lengthOf( // @lengthOf(
+a1 )
+,
+f64 asx
+@calculatedFrom(
+""a	b"" ) ,
+    u8 lengthOf@calculatedFrom(  ""\" ++ [233]%N ++ runes_of_ascii """ ), }
+")).
+Eval vm_compute in ("<<<M267>>>" ++ check (runes_of_ascii "packet packetx{} packet
+    zchar //	t
+{}
+")).
+Eval vm_compute in ("<<<M277>>>" ++ check (runes_of_ascii "
+packet stringy
+    { // c
+u8 Header// 50% %s
+@calculatedFrom(
+""it's""), calculatedFrom f32a, zchar[
+    /// triple
+    7
+] chars
+@lengthOf( x ),repeat
+As //x
+{ u8x crc
+`
+` ,	} , @tag(7) //x
+i16 rootA `it's`	, @calculatedFrom( """ ++ [128512]%N ++ runes_of_ascii """ ) i8 i8i8 `line1
+line2` ,
+repeat  char charz `say ""hi""` , } options
+    { }")).
+Eval vm_compute in ("<<<M287>>>" ++ check (runes_of_ascii "
+packet _x { }
+packet msg_type
+    {	@lengthOf( f32a ) u8x Z9_
+, } MetaData /// triple
+chars { string T
+, } //x")).
+Eval vm_compute in ("<<<M297>>>" ++ check (runes_of_ascii "//
+options
+{}
 ")).
 Eval vm_compute in ("<<<M307>>>" ++ check (runes_of_ascii "root packet SimpleMessage {
     uint16 MsgType `" ++ [28040; 24687; 31867; 22411]%N ++ runes_of_ascii "`,
     string JsonBody `Json" ++ [23383; 31526; 20018; 28040; 24687; 20307]%N ++ runes_of_ascii "`,
 }")).
 Eval vm_compute in ("<<<T307>>>" ++ terms [mkTok 34 "root" 1 0 false; mkTok 35 "packet" 1 5 false; mkTok 42 "SimpleMessage" 1 12 false; mkTok 2 "{" 1 26 false; mkTok 21 "uint16" 2 4 false; mkTok 42 "MsgType" 2 11 false; mkTok 43 (string_of_bytes [96; 230; 182; 136; 230; 129; 175; 231; 177; 187; 229; 158; 139; 96]%N) 2 19 false; mkTok 40 "," 2 25 false; mkTok 15 "string" 3 4 false; mkTok 42 "JsonBody" 3 11 false; mkTok 43 (string_of_bytes [96; 74; 115; 111; 110; 229; 173; 151; 231; 172; 166; 228; 184; 178; 230; 182; 136; 230; 129; 175; 228; 189; 147; 96]%N) 3 20 false; mkTok 40 "," 3 32 false; mkTok 3 "}" 4 0 false; mkTok 0 "<EOF>" 4 1 false] (mkPacket (mkPtok 34 "root" 1 0 0) (Some (mkPtok 3 "}" 4 0 12)) [(DPacket (mkPacketDef (mkSpan (mkPtok 34 "root" 1 0 0) (mkPtok 3 "}" 4 0 12)) (Some (mkPtok 34 "root" 1 0 0)) (mkPtok 35 "packet" 1 5 1) (mkPtok 42 "SimpleMessage" 1 12 2) (mkPtok 2 "{" 1 26 3) [(mkFieldWithAttr (mkSpan (mkPtok 21 "uint16" 2 4 4) (mkPtok 40 "," 2 25 7)) [] (MetaField (mkSpan (mkPtok 21 "uint16" 2 4 4) (mkPtok 40 "," 2 25 7)) None (mkMetaDecl (mkSpan (mkPtok 21 "uint16" 2 4 4) (mkPtok 40 "," 2 25 7)) (TyBasic (mkSpan (mkPtok 21 "uint16" 2 4 4) (mkPtok 21 "uint16" 2 4 4)) (mkBasicType (mkSpan (mkPtok 21 "uint16" 2 4 4) (mkPtok 21 "uint16" 2 4 4)) (mkPtok 21 "uint16" 2 4 4))) (mkPtok 42 "MsgType" 2 11 5) (Some (mkPtok 43 (string_of_bytes [96; 230; 182; 136; 230; 129; 175; 231; 177; 187; 229; 158; 139; 96]%N) 2 19 6)) (mkPtok 40 "," 2 25 7)))); (mkFieldWithAttr (mkSpan (mkPtok 15 "string" 3 4 8) (mkPtok 40 "," 3 32 11)) [] (MetaField (mkSpan (mkPtok 15 "string" 3 4 8) (mkPtok 40 "," 3 32 11)) None (mkMetaDecl (mkSpan (mkPtok 15 "string" 3 4 8) (mkPtok 40 "," 3 32 11)) (TyDynamic (mkSpan (mkPtok 15 "string" 3 4 8) (mkPtok 15 "string" 3 4 8)) (mkDynamicString (mkSpan (mkPtok 15 "string" 3 4 8) (mkPtok 15 "string" 3 4 8)) (mkPtok 15 "string" 3 4 8))) (mkPtok 42 "JsonBody" 3 11 9) (Some (mkPtok 43 (string_of_bytes [96; 74; 115; 111; 110; 229; 173; 151; 231; 172; 166; 228; 184; 178; 230; 182; 136; 230; 129; 175; 228; 189; 147; 96]%N) 3 20 10)) (mkPtok 40 "," 3 32 11))))] (mkPtok 3 "}" 4 0 12)))])).
-Eval vm_compute in ("<<<M317>>>" ++ check (runes_of_ascii "packet
-false
-{ Z9_ Header// " ++ [128512]%N ++ runes_of_ascii " emoji
-,} packet pack
-    { }
+Eval vm_compute in ("<<<M317>>>" ++ check (runes_of_ascii "MetaData
+@lengthOf(	{ char[] Z9_`{ , }`,} options { tag =
+    false } packet
+// a // b
+// @lengthOf(
+Pad {Foo @calculatedFrom( // `tick` ""quote"" 'q'
+""a\\"" ) ,
+    trueish ,
+    char[ 00]
+    // " ++ [128512]%N ++ runes_of_ascii " emoji
+    packetx , }
 ")).
-Eval vm_compute in ("<<<M327>>>" ++ check (runes_of_ascii "packet
-asx
-{ as Header// " ++ [128512]%N ++ runes_of_ascii " emoji
-,} packet pack
-    { }
+Eval vm_compute in ("<<<M327>>>" ++ check (runes_of_ascii "MetaData
+crc	{ uint8 Z9_`{ , }`,} options { tag =
+    false } packet
+// a // b
+// @lengthOf(
+Pad {Foo @calculatedFrom( // `tick` ""quote"" 'q'
+""a\\"" ) ,
+    trueish ,
+    char[ 00]
+    // " ++ [128512]%N ++ runes_of_ascii " emoji
+    packetx , }
 ")).
-Eval vm_compute in ("<<<M337>>>" ++ check (runes_of_ascii "packet
-asx
-{ Z9_ Header// " ++ [128512]%N ++ runes_of_ascii " emoji
-i16} packet pack
-    { }
+Eval vm_compute in ("<<<M337>>>" ++ check (runes_of_ascii "MetaData
+crc	{ char[] Z9_},} options { tag =
+    false } packet
+// a // b
+// @lengthOf(
+Pad {Foo @calculatedFrom( // `tick` ""quote"" 'q'
+""a\\"" ) ,
+    trueish ,
+    char[ 00]
+    // " ++ [128512]%N ++ runes_of_ascii " emoji
+    packetx , }
 ")).
-Eval vm_compute in ("<<<M347>>>" ++ check (runes_of_ascii "packet
-asx
-{ Z9_ Header// " ++ [128512]%N ++ runes_of_ascii " emoji
-,} root pack
-    { }
+Eval vm_compute in ("<<<M347>>>" ++ check (runes_of_ascii "MetaData
+crc	{ char[] Z9_`{ , }`,{ options { tag =
+    false } packet
+// a // b
+// @lengthOf(
+Pad {Foo @calculatedFrom( // `tick` ""quote"" 'q'
+""a\\"" ) ,
+    trueish ,
+    char[ 00]
+    // " ++ [128512]%N ++ runes_of_ascii " emoji
+    packetx , }
 ")).
-Eval vm_compute in ("<<<M357>>>" ++ check (runes_of_ascii "packet
-asx
-{ Z9_ Header// " ++ [128512]%N ++ runes_of_ascii " emoji
-,} packet pack
-    i32 }
+Eval vm_compute in ("<<<M357>>>" ++ check (runes_of_ascii "MetaData
+crc	{ char[] Z9_`{ , }`,} options repeat tag =
+    false } packet
+// a // b
+// @lengthOf(
+Pad {Foo @calculatedFrom( // `tick` ""quote"" 'q'
+""a\\"" ) ,
+    trueish ,
+    char[ 00]
+    // " ++ [128512]%N ++ runes_of_ascii " emoji
+    packetx , }
 ")).
-Eval vm_compute in ("<<<M367>>>" ++ check (runes_of_ascii "packet
-asx
-{ Z9_ Header// " ++ [128512]%N ++ runes_of_ascii " emoji
-,} packe")).
-Eval vm_compute in ("<<<M377>>>" ++ check (runes_of_ascii "packet
-asx
-{ Z9_ Header/// " ++ [128512]%N ++ runes_of_ascii " emoji
-,} packet pack
-    { }
+Eval vm_compute in ("<<<M367>>>" ++ check (runes_of_ascii "MetaData
+crc	{ char[] Z9_`{ , }`,} options { tag root
+    false } packet
+// a // b
+// @lengthOf(
+Pad {Foo @calculatedFrom( // `tick` ""quote"" 'q'
+""a\\"" ) ,
+    trueish ,
+    char[ 00]
+    // " ++ [128512]%N ++ runes_of_ascii " emoji
+    packetx , }
 ")).
-Eval vm_compute in ("<<<M387>>>" ++ check (runes_of_ascii "o MetaData { char[ // `tick` ""quote"" 'q'
-3] body, } packet o{
-u8
-charz ,
-    }")).
-Eval vm_compute in ("<<<M397>>>" ++ check (runes_of_ascii "MetaData o char[ { // `tick` ""quote"" 'q'
-3] body, } packet o{
-u8
-charz ,
-    }")).
-Eval vm_compute in ("<<<M407>>>" ++ check (runes_of_ascii "MetaData o { char[ // `tick` ""quote"" 'q'
-]3 body, } packet o{
-u8
-charz ,
-    }")).
-Eval vm_compute in ("<<<M417>>>" ++ check (runes_of_ascii "MetaData o { char[ // `tick` ""quote"" 'q'
-3] ,body } packet o{
-u8
-charz ,
-    }")).
-Eval vm_compute in ("<<<M427>>>" ++ check (runes_of_ascii "MetaData o { char[ // `tick` ""quote"" 'q'
-3] body, packet } o{
-u8
-charz ,
-    }")).
-Eval vm_compute in ("<<<M437>>>" ++ check (runes_of_ascii "MetaData o { char[ // `tick` ""quote"" 'q'
-3] body, } packet {o
-u8
-charz ,
-    }")).
-Eval vm_compute in ("<<<M447>>>" ++ check (runes_of_ascii "MetaData o { char[ // `tick` ""quote"" 'q'
-3] body, } packet o{
-charz
-u8 ,
-    }")).
-Eval vm_compute in ("<<<M457>>>" ++ check (runes_of_ascii "MetaData o { char[ // `tick` ""quote"" 'q'
-3] body, } packet o{
-u8
-charz }
-    ,")).
-Eval vm_compute in ("<<<M467>>>" ++ check (runes_of_ascii "MetaData o { ch")).
-Eval vm_compute in ("<<<M477>>>" ++ check (runes_of_ascii "MetaData o { char[ // `tick` ""quote"" 'q'
-3] body, } packet o{
-u8
-charz '1',
-    }")).
-Eval vm_compute in ("<<<M487>>>" ++ check (runes_of_ascii "options options {calculatedFrom =	int8 ;}
-
+Eval vm_compute in ("<<<M377>>>" ++ check (runes_of_ascii "MetaData
+crc	{ char[] Z9_`{ , }`,} options { tag =
+    false char[] packet
+// a // b
+// @lengthOf(
+Pad {Foo @calculatedFrom( // `tick` ""quote"" 'q'
+""a\\"" ) ,
+    trueish ,
+    char[ 00]
+    // " ++ [128512]%N ++ runes_of_ascii " emoji
+    packetx , }
 ")).
-Eval vm_compute in ("<<<M497>>>" ++ check (runes_of_ascii "options {calculatedFrom calculatedFrom =	int8 ;}
-
+Eval vm_compute in ("<<<M387>>>" ++ check (runes_of_ascii "MetaData
+crc	{ char[] Z9_`{ , }`,} options { tag =
+    false } packet
+// a // b
+// @lengthOf(
+u64 {Foo @calculatedFrom( // `tick` ""quote"" 'q'
+""a\\"" ) ,
+    trueish ,
+    char[ 00]
+    // " ++ [128512]%N ++ runes_of_ascii " emoji
+    packetx , }
 ")).
-Eval vm_compute in ("<<<M507>>>" ++ check (runes_of_ascii "options {calculatedFrom =	int8 int8 ;}
-
+Eval vm_compute in ("<<<M397>>>" ++ check (runes_of_ascii "MetaData
+crc	{ char[] Z9_`{ , }`,} options { tag =
+    false } packet
+// a // b
+// @lengthOf(
+Pad {: @calculatedFrom( // `tick` ""quote"" 'q'
+""a\\"" ) ,
+    trueish ,
+    char[ 00]
+    // " ++ [128512]%N ++ runes_of_ascii " emoji
+    packetx , }
 ")).
-Eval vm_compute in ("<<<M517>>>" ++ check (runes_of_ascii "options {calculatedFrom =	int8 ;} }
-
+Eval vm_compute in ("<<<M407>>>" ++ check (runes_of_ascii "MetaData
+crc	{ char[] Z9_`{ , }`,} options { tag =
+    false } packet
+// a // b
+// @lengthOf(
+Pad {Foo @calculatedFrom( // `tick` ""quote"" 'q'
+int64 ) ,
+    trueish ,
+    char[ 00]
+    // " ++ [128512]%N ++ runes_of_ascii " emoji
+    packetx , }
 ")).
-Eval vm_compute in ("<<<M527>>>" ++ check (runes_of_ascii "options {calculatedFrom =	int8 ;}
-
-' ")).
-Eval vm_compute in ("<<<M537>>>" ++ check (runes_of_ascii "options {calculatedFrom =	int8 " ++ [233]%N ++ runes_of_ascii " ;}
-
+Eval vm_compute in ("<<<M417>>>" ++ check (runes_of_ascii "MetaData
+crc	{ char[] Z9_`{ , }`,} options { tag =
+    false } packet
+// a // b
+// @lengthOf(
+Pad {Foo @calculatedFrom( // `tick` ""quote"" 'q'
+""a\\"" ) a1
+    trueish ,
+    char[ 00]
+    // " ++ [128512]%N ++ runes_of_ascii " emoji
+    packetx , }
 ")).
-Eval vm_compute in ("<<<M547>>>" ++ check (runes_of_ascii "
-MetaData chars {Logon packetx,
-    float ,
-calculatedFrom  u32 i64_ ,	}")).
-Eval vm_compute in ("<<<M557>>>" ++ check (runes_of_ascii "
-MetaData chars {na" ++ [239]%N ++ runes_of_ascii "ve packetx,
-    float calculatedFrom
-,  u32 i64_ ,	}")).
+Eval vm_compute in ("<<<M427>>>" ++ check (runes_of_ascii "MetaData
+crc	{ char[] Z9_`{ , }`,} options { tag =
+    false } packet
+// a // b
+// @lengthOf(
+Pad {Foo @calculatedFrom( // `tick` ""quote"" 'q'
+""a\\"" ) ,
+    trueish zchar[
+    char[ 00]
+    // " ++ [128512]%N ++ runes_of_ascii " emoji
+    packetx , }
+")).
+Eval vm_compute in ("<<<M437>>>" ++ check (runes_of_ascii "MetaData
+crc	{ char[] Z9_`{ , }`,} options { tag =
+    false } packet
+// a // b
+// @lengthOf(
+Pad {Foo @calculatedFrom( // `tick` ""quote"" 'q'
+""a\\"" ) ,
+    trueish ,
+    char[ char[]]
+    // " ++ [128512]%N ++ runes_of_ascii " emoji
+    packetx , }
+")).
+Eval vm_compute in ("<<<M447>>>" ++ check (runes_of_ascii "MetaData
+crc	{ char[] Z9_`{ , }`,} options { tag =
+    false } packet
+// a // b
+// @lengthOf(
+Pad {Foo @calculatedFrom( // `tick` ""quote"" 'q'
+""a\\"" ) ,
+    trueish ,
+    char[ 00]
+    // " ++ [128512]%N ++ runes_of_ascii " emoji
+    [ , }
+")).
+Eval vm_compute in ("<<<M457>>>" ++ check (runes_of_ascii "MetaData
+crc	{ char[] Z9_`{ , }`,} options { tag =
+    false } packet
+// a // b
+// @lengthOf(
+Pad {Foo @calculatedFrom( // `tick` ""quote"" 'q'
+""a\\"" ) ,
+    trueish ,
+    char[ 00]
+    // " ++ [128512]%N ++ runes_of_ascii " emoji
+    packetx ,")).
+Eval vm_compute in ("<<<M467>>>" ++ check (runes_of_ascii "MetaData
+crc	{ char[] Z9_`{ , }`,} options { / tag =
+    false } packet
+// a // b
+// @lengthOf(
+Pad {Foo @calculatedFrom( // `tick` ""quote"" 'q'
+""a\\"" ) ,
+    trueish ,
+    char[ 00]
+    // " ++ [128512]%N ++ runes_of_ascii " emoji
+    packetx , }
+")).
+Eval vm_compute in ("<<<M477>>>" ++ check (runes_of_ascii "MetaData
+crc	{ char[] Z9_`{ , }`,} options { na" ++ [239]%N ++ runes_of_ascii "ve =
+    false } packet
+// a // b
+// @lengthOf(
+Pad {Foo @calculatedFrom( // `tick` ""quote"" 'q'
+""a\\"" ) ,
+    trueish ,
+    char[ 00]
+    // " ++ [128512]%N ++ runes_of_ascii " emoji
+    packetx , }
+")).
+Eval vm_compute in ("<<<M487>>>" ++ check (runes_of_ascii "root packet _x	{ @rightPad (
+' ' ) string u8x @lengthOf(
+    _x
+) , repeat Pad  { // " ++ [128512]%N ++ runes_of_ascii " emoji
+As")).
+Eval vm_compute in ("<<<M497>>>" ++ check (runes_of_ascii "root packet _x	{ @rightPad (
+' ' ) string u8x @lengthOf(
+    _x
+) , repeat Pad  { // " ++ [128512]%N ++ runes_of_ascii " emoji
+As
+// `tick` ""quote"" 'q'
+//x
+{matchKey chars,
+} , }} ,")).
+Eval vm_compute in ("<<<M507>>>" ++ check (runes_of_ascii "root packet _x	{ @rightPad (
+' ' ) string u8x @lengthOf(
+    _x
+) , repeat Pad  { // " ++ [128512]%N ++ runes_of_ascii " emoji
+As
+// `tick` ""quote"" 'q'
+//x
+{matchKey")).
+Eval vm_compute in ("<<<M517>>>" ++ check (runes_of_ascii "root packet _x	{ @rightPad (
+' ' ) string u8x @lengthOf(
+    _x
+) , repeat Pad  { // " ++ [128512]%N ++ runes_of_ascii " emoji
+As As
+// `tick` ""quote"" 'q'
+//x
+{matchKey chars,
+} , }, }")).
+Eval vm_compute in ("<<<M527>>>" ++ check (runes_of_ascii "root packet _x	{ @rightPad (
+' ' ) string u8x @lengthOf(
+    _x
+) , repeat")).
+Eval vm_compute in ("<<<M537>>>" ++ check (runes_of_ascii "root packet _x	{ @rightPad (
+' ' ) string u8x @lengthOf(
+    _x
+) , repeat {  Pad // " ++ [128512]%N ++ runes_of_ascii " emoji
+As
+// `tick` ""quote"" 'q'
+//x
+{matchKey chars,
+} , }, }")).
+Eval vm_compute in ("<<<M547>>>" ++ check (runes_of_ascii "root packet _x	{ @rightPad (
+' ' ) string u8x @lengthOf(
+    _x
+) , repeat Pad  { // " ++ [128512]%N ++ runes_of_ascii " emoji
+As
+// `tick`" ++ [0]%N ++ runes_of_ascii " ""quote"" 'q'
+//x
+{matchKey chars,
+} , }, }")).
+Eval vm_compute in ("<<<T547>>>" ++ terms [mkTok 34 "root" 1 0 false; mkTok 35 "packet" 1 5 false; mkTok 42 "_x" 1 12 false; mkTok 2 "{" 1 15 false; mkTok 32 "@rightPad" 1 17 false; mkTok 8 "(" 1 27 false; mkTok 33 "' '" 2 0 false; mkTok 6 ")" 2 4 false; mkTok 15 "string" 2 6 false; mkTok 42 "u8x" 2 13 false; mkTok 7 "@lengthOf(" 2 17 false; mkTok 42 "_x" 3 4 false; mkTok 6 ")" 4 0 false; mkTok 40 "," 4 2 false; mkTok 36 "repeat" 4 4 false; mkTok 42 "Pad" 4 11 false; mkTok 2 "{" 4 16 false; mkTok 44 (string_of_bytes [47; 47; 32; 240; 159; 152; 128; 32; 101; 109; 111; 106; 105]%N) 4 18 true; mkTok 42 "As" 5 0 false; mkTok 44 (string_of_bytes [47; 47; 32; 96; 116; 105; 99; 107; 96; 0; 32; 34; 113; 117; 111; 116; 101; 34; 32; 39; 113; 39]%N) 6 0 true; mkTok 44 "//x" 7 0 true; mkTok 2 "{" 8 0 false; mkTok 42 "matchKey" 8 1 false; mkTok 42 "chars" 8 10 false; mkTok 40 "," 8 15 false; mkTok 3 "}" 9 0 false; mkTok 40 "," 9 2 false; mkTok 3 "}" 9 4 false; mkTok 40 "," 9 5 false; mkTok 3 "}" 9 7 false; mkTok 0 "<EOF>" 9 8 false] (mkPacket (mkPtok 34 "root" 1 0 0) (Some (mkPtok 3 "}" 9 7 29)) [(DPacket (mkPacketDef (mkSpan (mkPtok 34 "root" 1 0 0) (mkPtok 3 "}" 9 7 29)) (Some (mkPtok 34 "root" 1 0 0)) (mkPtok 35 "packet" 1 5 1) (mkPtok 42 "_x" 1 12 2) (mkPtok 2 "{" 1 15 3) [(mkFieldWithAttr (mkSpan (mkPtok 32 "@rightPad" 1 17 4) (mkPtok 40 "," 4 2 13)) [(FAPadding (mkSpan (mkPtok 32 "@rightPad" 1 17 4) (mkPtok 6 ")" 2 4 7)) (mkPaddingAttr (mkSpan (mkPtok 32 "@rightPad" 1 17 4) (mkPtok 6 ")" 2 4 7)) (mkPtok 32 "@rightPad" 1 17 4) (mkPtok 8 "(" 1 27 5) (Some (mkPtok 33 "' '" 2 0 6)) (mkPtok 6 ")" 2 4 7)))] (LengthField (mkSpan (mkPtok 15 "string" 2 6 8) (mkPtok 40 "," 4 2 13)) (mkLengthFieldDecl (mkSpan (mkPtok 15 "string" 2 6 8) (mkPtok 40 "," 4 2 13)) (Some (TyDynamic (mkSpan (mkPtok 15 "string" 2 6 8) (mkPtok 15 "string" 2 6 8)) (mkDynamicString (mkSpan (mkPtok 15 "string" 2 6 8) (mkPtok 15 "string" 2 6 8)) (mkPtok 15 "string" 2 6 8)))) (mkPtok 42 "u8x" 2 13 9) (mkLengthOf (mkSpan (mkPtok 7 "@lengthOf(" 2 17 10) (mkPtok 6 ")" 4 0 12)) (mkPtok 7 "@lengthOf(" 2 17 10) (mkPtok 42 "_x" 3 4 11) (mkPtok 6 ")" 4 0 12)) None (mkPtok 40 "," 4 2 13)))); (mkFieldWithAttr (mkSpan (mkPtok 36 "repeat" 4 4 14) (mkPtok 40 "," 9 5 28)) [] (InerObjectField (mkSpan (mkPtok 36 "repeat" 4 4 14) (mkPtok 40 "," 9 5 28)) (Some (mkPtok 36 "repeat" 4 4 14)) (InerObjectDecl (mkSpan (mkPtok 42 "Pad" 4 11 15) (mkPtok 3 "}" 9 4 27)) (mkPtok 42 "Pad" 4 11 15) (mkPtok 2 "{" 4 16 16) [(InerObjectField (mkSpan (mkPtok 42 "As" 5 0 18) (mkPtok 40 "," 9 2 26)) None (InerObjectDecl (mkSpan (mkPtok 42 "As" 5 0 18) (mkPtok 3 "}" 9 0 25)) (mkPtok 42 "As" 5 0 18) (mkPtok 2 "{" 8 0 21) [(ObjectField (mkSpan (mkPtok 42 "matchKey" 8 1 22) (mkPtok 40 "," 8 15 24)) None (mkPtok 42 "matchKey" 8 1 22) (Some (mkPtok 42 "chars" 8 10 23)) None (mkPtok 40 "," 8 15 24))] (mkPtok 3 "}" 9 0 25)) (mkPtok 40 "," 9 2 26))] (mkPtok 3 "}" 9 4 27)) (mkPtok 40 "," 9 5 28)))] (mkPtok 3 "}" 9 7 29)))])).
+Eval vm_compute in ("<<<M557>>>" ++ check (runes_of_ascii "root packet _x	{ @rightPad (
+' ' ) string u8x @lengthOf(
+    _x
+) ,")).
 Eval vm_compute in ("<<<M567>>>" ++ check (runes_of_ascii "")).
-Eval vm_compute in ("<<<M577>>>" ++ check ([65533]%N ++ runes_of_ascii "+" ++ [15; 65533; 65533]%N ++ runes_of_ascii ";" ++ [65533]%N)).
-Eval vm_compute in ("<<<M587>>>" ++ check (runes_of_ascii "} '\x00' @rightPad repeat float32 ; packet float32 options @tag( ] string u8")).
-Eval vm_compute in ("<<<M597>>>" ++ check ([19; 65533; 65533]%N ++ runes_of_ascii "K" ++ [65533; 2; 5]%N ++ runes_of_ascii "k" ++ [65533; 350; 19]%N ++ runes_of_ascii "]{" ++ [65533]%N ++ runes_of_ascii "Y" ++ [65533; 65533]%N)).
+Eval vm_compute in ("<<<M577>>>" ++ check ([397; 8; 65533; 65533; 29; 65533]%N ++ runes_of_ascii "ar
++" ++ [65533]%N ++ runes_of_ascii ":" ++ [65533; 65533; 65533; 65533; 20; 566; 65533]%N ++ runes_of_ascii "T" ++ [65533; 65533]%N ++ runes_of_ascii "	" ++ [21; 65533; 65533]%N)).
+Eval vm_compute in ("<<<M587>>>" ++ check (runes_of_ascii "255 char[ u64 [ char[] `
+`")).
+Eval vm_compute in ("<<<M597>>>" ++ check (runes_of_ascii "6|" ++ [65533]%N ++ runes_of_ascii "" ++ [65533; 65533]%N ++ runes_of_ascii """O~" ++ [65533; 65533; 65533; 22; 65533; 65533]%N ++ runes_of_ascii "6" ++ [25; 28; 127; 65533]%N ++ runes_of_ascii "|")).
